@@ -741,6 +741,8 @@ inductive Tag where
   | open (es : List Elem) (selfClose : Bool)
   /-- `{/w}` -/
   | close (w : Bytes)
+  /-- the end of the input (no bytes; the EOF item) -/
+  | eof
   deriving Repr, DecidableEq
 
 def closeBytes (sc : Bool) : Bytes := if sc then [47, 125] else [125]
@@ -748,6 +750,7 @@ def closeBytes (sc : Bool) : Bytes := if sc then [47, 125] else [125]
 def Tag.src : Tag → Bytes
   | .open es sc => 123 :: (srcEs es ++ closeBytes sc)
   | .close w => 123 :: 47 :: (w ++ [125])
+  | .eof => []
 
 /-- the item type of `/w` -/
 def closeType (w : Bytes) : ItemType := (Gen.builtinIdents.lookup (47 :: w)).getD .tInvalid
@@ -760,10 +763,12 @@ def Tag.items (q : Nat) : Tag → List Item
        else ⟨.tRightDelim, q + 1 + (srcEs es).length + 1, [125]⟩])
   | .close w =>
     [⟨.tLeftDelim, q + 1, [123]⟩, ⟨closeType w, q + 2 + w.length, 47 :: w⟩, ⟨.tRightDelim, q + 3 + w.length, [125]⟩]
+  | .eof => [⟨.tEOF, q, []⟩]
 
 def Tag.steps : Tag → Nat
   | .open es _ => stepsEs es + 4
   | .close _ => 5
+  | .eof => 0
 
 def closeOK (w : Bytes) : Prop :=
   (∀ i, i < w.length → idByte (w.getD i 0).toNat) ∧ (Gen.builtinIdents.lookup (47 :: w)).isSome = true ∧
@@ -774,6 +779,7 @@ instance (w : Bytes) : Decidable (closeOK w) := by unfold closeOK; infer_instanc
 def Tag.ok : Tag → Prop
   | .open es sc => es ≠ [] ∧ EsOK es (if sc then 47 else 125)
   | .close w => closeOK w
+  | .eof => False
 
 instance (g : Tag) : Decidable g.ok := by cases g <;> (unfold Tag.ok; infer_instance)
 
@@ -857,6 +863,7 @@ theorem tag_run' (g : Tag) {inp : Array UInt8} {q : Nat} (hok : g.ok) (h : Holds
         run f .text (Lexer.mk inp ((q + g.src.length : Nat) : Int) ((q + g.src.length : Nat) : Int) w' dd' ts' le' its') ∧
       its'.toList = its.toList ++ g.items q := by
   cases g with
+  | eof => exact hok.elim
   | close wd =>
     obtain ⟨hq0, hb0, h1⟩ := h.cons
     have h1' : Holds inp (q + 1) (47 :: wd ++ [125]) := h1
@@ -992,10 +999,11 @@ instance (t : Bytes) : Decidable (txtOK t) := by unfold txtOK; infer_instance
 
 def SegOK (s : Seg) : Prop := txtOK s.1 ∧ s.2.ok
 
-theorem Tag.src_head (g : Tag) : ∃ tl, g.src = 123 :: tl := by
+theorem Tag.src_head (g : Tag) (h : g.ok) : ∃ tl, g.src = 123 :: tl := by
   cases g with
   | «open» es sc => exact ⟨_, rfl⟩
   | close w => exact ⟨_, rfl⟩
+  | eof => exact h.elim
 
 /-- one segment: `lexText` sends the text, the tag's state functions send its items -/
 theorem seg_run' {inp : Array UInt8} {q : Nat} (s : Seg) {post : Bytes} (hok : SegOK s)
@@ -1010,7 +1018,7 @@ theorem seg_run' {inp : Array UInt8} {q : Nat} (s : Seg) {post : Bytes} (hok : S
   simp only at ht hg h ⊢
   obtain ⟨ht', hrest⟩ := h.append
   obtain ⟨hgs, _⟩ := hrest.append
-  obtain ⟨tl, htl⟩ := g.src_head
+  obtain ⟨tl, htl⟩ := g.src_head hg
   have hb : byteAt inp (q + t.length) = 123 ∧ q + t.length < inp.size := by
     have := hgs 0 (by rw [htl]; simp)
     rw [htl] at this
@@ -1068,6 +1076,7 @@ theorem stepsEs_le : ∀ (es : List Elem) (nb : UInt8), EsOK es nb → stepsEs e
 
 theorem steps_le (g : Tag) (h : g.ok) : 1 + g.steps ≤ 7 * g.src.length := by
   cases g with
+  | eof => exact h.elim
   | close w => simp [Tag.steps, Tag.src]; omega
   | «open» es sc =>
     have := stepsEs_le es _ h.2
@@ -1096,5 +1105,1620 @@ theorem lexAll_segs (segs : List Seg) (tr : Bytes) (hok : ∀ s ∈ segs, SegOK 
         simp [Array.getD_eq_getD_getElem?, List.getD_eq_getElem?_getD])
     (by simp) (by have := stepsSegs_le segs hok; simp only [List.length_append]; omega)
   simpa using this
+
+
+/-! ## trees: text, print tags and nested block commands -/
+
+/-- the simple expressions of the family -/
+inductive SExp where
+  /-- a variable `$id` -/
+  | var (id : Bytes)
+  /-- a decimal integer literal -/
+  | int (ds : Bytes)
+  deriving Repr, DecidableEq
+
+def SExp.elem : SExp → Elem
+  | .var id => .dollar id
+  | .int ds => .int ds
+
+def SExp.ok : SExp → Prop
+  | .var id => idOK id
+  | .int ds => intOK ds
+
+instance (e : SExp) : Decidable e.ok := by cases e <;> (unfold SExp.ok; infer_instance)
+
+mutual
+  /-- a command; the text before it is kept by the enclosing block -/
+  inductive Cmd where
+    /-- `{$id}` -/
+    | print (id : Bytes)
+    /-- `{if e}` body, then the rest of the if chain -/
+    | ifc (e : SExp) (b : Blk) (t : IfTail)
+    /-- `{foreach $x in e}` body `{/foreach}` -/
+    | foreach (x : Bytes) (e : SExp) (b : Blk)
+    /-- `{foreach $x in e}` body `{ifempty}` body `{/foreach}` -/
+    | foreachE (x : Bytes) (e : SExp) (b : Blk) (ie : Blk)
+    /-- `{let $x: e /}` -/
+    | letv (x : Bytes) (e : SExp)
+    /-- `{let $x}` body `{/let}` -/
+    | letc (x : Bytes) (b : Blk)
+  /-- a block: commands, each preceded by a (possibly empty) text run, and a trailing text run -/
+  inductive Blk where
+    | done (t : Bytes)
+    | cons (t : Bytes) (c : Cmd) (r : Blk)
+  /-- what follows the body of an `{if}` / `{elseif}` -/
+  inductive IfTail where
+    /-- `{/if}` -/
+    | fi
+    /-- `{else}` body `{/if}` -/
+    | els (b : Blk)
+    /-- `{elseif e}` body, and so on -/
+    | elif (e : SExp) (b : Blk) (r : IfTail)
+end
+
+def kIf : Bytes := [105, 102]
+def kElseif : Bytes := [101, 108, 115, 101, 105, 102]
+def kElse : Bytes := [101, 108, 115, 101]
+def kForeach : Bytes := [102, 111, 114, 101, 97, 99, 104]
+def kIfempty : Bytes := [105, 102, 101, 109, 112, 116, 121]
+def kLet : Bytes := [108, 101, 116]
+def kwIn : Bytes := [105, 110]
+
+def printTag (id : Bytes) : Tag := .open [.dollar id] false
+def ifTag (e : SExp) : Tag := .open [.word kIf, .sp, e.elem] false
+def elseifTag (e : SExp) : Tag := .open [.word kElseif, .sp, e.elem] false
+def elseTag : Tag := .open [.word kElse] false
+def foreachTag (x : Bytes) (e : SExp) : Tag := .open [.word kForeach, .sp, .dollar x, .sp, .word kwIn, .sp, e.elem] false
+def ifemptyTag : Tag := .open [.word kIfempty] false
+def letvTag (x : Bytes) (e : SExp) : Tag := .open [.word kLet, .sp, .dollar x, .colon, .sp, e.elem, .sp] true
+def letcTag (x : Bytes) : Tag := .open [.word kLet, .sp, .dollar x] false
+
+def Blk.trail : Blk → Bytes
+  | .done t => t
+  | .cons _ _ r => r.trail
+
+/-- the first tag of an if tail: it closes the body before it -/
+def IfTail.head : IfTail → Tag
+  | .fi => .close kIf
+  | .els _ => elseTag
+  | .elif e _ _ => elseifTag e
+
+mutual
+  /-- the segments of a command preceded by the text `t` -/
+  def segsCmd (t : Bytes) : Cmd → List Seg
+    | .print id => [(t, printTag id)]
+    | .ifc e b tl => (t, ifTag e) :: (initBlk b ++ [(b.trail, tl.head)] ++ segsTail tl)
+    | .foreach x e b => (t, foreachTag x e) :: (initBlk b ++ [(b.trail, .close kForeach)])
+    | .foreachE x e b ie =>
+      (t, foreachTag x e) :: (initBlk b ++ [(b.trail, ifemptyTag)] ++ (initBlk ie ++ [(ie.trail, .close kForeach)]))
+    | .letv x e => [(t, letvTag x e)]
+    | .letc x b => (t, letcTag x) :: (initBlk b ++ [(b.trail, .close kLet)])
+  /-- the segments of a block without its trailing text -/
+  def initBlk : Blk → List Seg
+    | .done _ => []
+    | .cons t c r => segsCmd t c ++ initBlk r
+  /-- the segments behind the first tag of an if tail -/
+  def segsTail : IfTail → List Seg
+    | .fi => []
+    | .els b => initBlk b ++ [(b.trail, .close kIf)]
+    | .elif _ b r => initBlk b ++ [(b.trail, r.head)] ++ segsTail r
+end
+
+/-- a block closed by the tag `g` (`Tag.eof` at the top level) -/
+def closeBlk (b : Blk) (g : Tag) : List Seg := initBlk b ++ [(b.trail, g)]
+
+/-- the source text of a template body -/
+def srcOf (b : Blk) : Bytes := srcSegs (initBlk b) ++ b.trail
+
+/-- the items `lex` sends for it -/
+def itemsOf (b : Blk) : List Item := itemsSegs 0 (closeBlk b .eof)
+
+mutual
+  def wfCmd : Cmd → Prop
+    | .print id => idOK id
+    | .ifc e b tl => e.ok ∧ wfBlk b ∧ wfTail tl
+    | .foreach x e b => idOK x ∧ e.ok ∧ wfBlk b
+    | .foreachE x e b ie => idOK x ∧ e.ok ∧ wfBlk b ∧ wfBlk ie
+    | .letv x e => idOK x ∧ e.ok
+    | .letc x b => idOK x ∧ wfBlk b
+  /-- well-formed: every text run is empty or `textOK`, identifiers and literals are well-formed -/
+  def wfBlk : Blk → Prop
+    | .done t => txtOK t
+    | .cons t c r => txtOK t ∧ wfCmd c ∧ wfBlk r
+  def wfTail : IfTail → Prop
+    | .fi => True
+    | .els b => wfBlk b
+    | .elif e b r => e.ok ∧ wfBlk b ∧ wfTail r
+end
+
+
+/-! ### the tags of the family are well-formed -/
+
+theorem SExp.elem_ok {e : SExp} (h : e.ok) : e.elem.ok ∧ e.elem.needsDelim = true := by
+  cases e <;> exact ⟨h, rfl⟩
+
+theorem d32 : delimByte (32 : UInt8).toNat := by decide
+theorem d125 : delimByte (125 : UInt8).toNat := by decide
+theorem d58 : delimByte (58 : UInt8).toNat := by decide
+theorem nd {P : Prop} : false = true → P := fun h => absurd h (by decide)
+
+theorem printTag_ok {id : Bytes} (h : idOK id) : (printTag id).ok :=
+  ⟨by simp, h, fun _ => d125, trivial⟩
+
+theorem ifTag_ok {e : SExp} (h : e.ok) : (ifTag e).ok :=
+  ⟨by simp, by decide, fun _ => d32, trivial, nd, (SExp.elem_ok h).1, fun _ => d125, trivial⟩
+
+theorem elseifTag_ok {e : SExp} (h : e.ok) : (elseifTag e).ok :=
+  ⟨by simp, by decide, fun _ => d32, trivial, nd, (SExp.elem_ok h).1, fun _ => d125, trivial⟩
+
+theorem elseTag_ok : elseTag.ok := by decide
+theorem ifemptyTag_ok : ifemptyTag.ok := by decide
+theorem closeIf_ok : (Tag.close kIf).ok := by decide
+theorem closeForeach_ok : (Tag.close kForeach).ok := by decide
+theorem closeLet_ok : (Tag.close kLet).ok := by decide
+
+theorem foreachTag_ok {x : Bytes} {e : SExp} (hx : idOK x) (h : e.ok) : (foreachTag x e).ok :=
+  ⟨by simp, by decide, fun _ => d32, trivial, nd, hx, fun _ => d32, trivial,
+    nd, by decide, fun _ => d32, trivial, nd, (SExp.elem_ok h).1, fun _ => d125, trivial⟩
+
+theorem letvTag_ok {x : Bytes} {e : SExp} (hx : idOK x) (h : e.ok) : (letvTag x e).ok :=
+  ⟨by simp, by decide, fun _ => d32, trivial, nd, hx, fun _ => d58, trivial,
+    nd, trivial, nd, (SExp.elem_ok h).1, fun _ => d32, trivial, nd, trivial⟩
+
+theorem letcTag_ok {x : Bytes} (hx : idOK x) : (letcTag x).ok :=
+  ⟨by simp, by decide, fun _ => d32, trivial, nd, hx, fun _ => d125, trivial⟩
+
+theorem IfTail.head_ok {tl : IfTail} (h : wfTail tl) : tl.head.ok := by
+  cases tl with
+  | fi => exact closeIf_ok
+  | els b => exact elseTag_ok
+  | elif e b r => exact elseifTag_ok h.1
+
+theorem Blk.trail_ok : ∀ {b : Blk}, wfBlk b → txtOK b.trail
+  | .done _, h => h
+  | .cons _ _ r, h => Blk.trail_ok (b := r) h.2.2
+
+theorem segOK_append {a b : List Seg} (ha : ∀ s ∈ a, SegOK s) (hb : ∀ s ∈ b, SegOK s) : ∀ s ∈ a ++ b, SegOK s := by
+  intro s hs
+  rcases List.mem_append.mp hs with h | h
+  · exact ha s h
+  · exact hb s h
+
+theorem segOK_close {b : Blk} {g : Tag} (hi : ∀ s ∈ initBlk b, SegOK s) (hb : wfBlk b) (hg : g.ok) :
+    ∀ s ∈ initBlk b ++ [(b.trail, g)], SegOK s :=
+  segOK_append hi (by intro s hs; simp at hs; subst hs; exact ⟨Blk.trail_ok hb, hg⟩)
+
+mutual
+  theorem segsCmd_ok : ∀ (t : Bytes) (c : Cmd), txtOK t → wfCmd c → ∀ s ∈ segsCmd t c, SegOK s
+    | t, .print id, ht, h => by
+      intro s hs; simp [segsCmd] at hs; subst hs; exact ⟨ht, printTag_ok h⟩
+    | t, .ifc e b tl, ht, h => by
+      simp only [segsCmd]
+      intro s hs
+      rcases List.mem_cons.mp hs with rfl | hs
+      · exact ⟨ht, ifTag_ok h.1⟩
+      · exact segOK_append (segOK_close (initBlk_ok b h.2.1) h.2.1 (IfTail.head_ok h.2.2)) (segsTail_ok tl h.2.2) s hs
+    | t, .foreach x e b, ht, h => by
+      simp only [segsCmd]
+      intro s hs
+      rcases List.mem_cons.mp hs with rfl | hs
+      · exact ⟨ht, foreachTag_ok h.1 h.2.1⟩
+      · exact segOK_close (initBlk_ok b h.2.2) h.2.2 closeForeach_ok s hs
+    | t, .foreachE x e b ie, ht, h => by
+      simp only [segsCmd]
+      intro s hs
+      rcases List.mem_cons.mp hs with rfl | hs
+      · exact ⟨ht, foreachTag_ok h.1 h.2.1⟩
+      · exact segOK_append (segOK_close (initBlk_ok b h.2.2.1) h.2.2.1 ifemptyTag_ok)
+          (segOK_close (initBlk_ok ie h.2.2.2) h.2.2.2 closeForeach_ok) s hs
+    | t, .letv x e, ht, h => by
+      intro s hs; simp [segsCmd] at hs; subst hs; exact ⟨ht, letvTag_ok h.1 h.2⟩
+    | t, .letc x b, ht, h => by
+      simp only [segsCmd]
+      intro s hs
+      rcases List.mem_cons.mp hs with rfl | hs
+      · exact ⟨ht, letcTag_ok h.1⟩
+      · exact segOK_close (initBlk_ok b h.2) h.2 closeLet_ok s hs
+  theorem initBlk_ok : ∀ (b : Blk), wfBlk b → ∀ s ∈ initBlk b, SegOK s
+    | .done _, _ => by intro s hs; simp [initBlk] at hs
+    | .cons t c r, h => by
+      simp only [initBlk]
+      exact segOK_append (segsCmd_ok t c h.1 h.2.1) (initBlk_ok r h.2.2)
+  theorem segsTail_ok : ∀ (tl : IfTail), wfTail tl → ∀ s ∈ segsTail tl, SegOK s
+    | .fi, _ => by intro s hs; simp [segsTail] at hs
+    | .els b, h => by
+      simp only [segsTail]
+      exact segOK_close (initBlk_ok b h) h closeIf_ok
+    | .elif e b r, h => by
+      simp only [segsTail]
+      exact segOK_append (segOK_close (initBlk_ok b h.2.1) h.2.1 (IfTail.head_ok h.2.2)) (segsTail_ok r h.2.2)
+end
+
+theorem itemsSegs_append : ∀ (a b : List Seg) (q : Nat),
+    itemsSegs q (a ++ b) = itemsSegs q a ++ itemsSegs (q + (srcSegs a).length) b
+  | [], b, q => by simp [itemsSegs, srcSegs]
+  | s :: r, b, q => by
+    simp only [List.cons_append, itemsSegs, srcSegs, itemsSegs_append r b, List.append_assoc, List.length_append]
+    rw [show q + s.1.length + s.2.src.length + (srcSegs r).length = q + (s.1.length + (s.2.src.length + (srcSegs r).length)) by omega]
+
+theorem srcSegs_append : ∀ (a b : List Seg), srcSegs (a ++ b) = srcSegs a ++ srcSegs b
+  | [], b => rfl
+  | s :: r, b => by simp [srcSegs, srcSegs_append r b]
+
+/-- **lexer**: the items of a well-formed template body -/
+theorem lexAll_tree (b : Blk) (h : wfBlk b) : lexAll (srcOf b) false = .items (itemsOf b) := by
+  have := lexAll_segs (initBlk b) b.trail (initBlk_ok b h) (Blk.trail_ok h)
+  unfold srcOf itemsOf closeBlk
+  rw [this, itemsSegs_append]
+  simp [itemsSegs, Tag.items]
+
+
+/-! ## parser: helpers on the stream view -/
+
+section parser
+variable (pf : Bytes → Option UInt64)
+
+theorem nl_append_nil : ∀ (a : NodeList), a.append .nil = a
+  | .nil => rfl
+  | .cons n r => by simp [NodeList.append, nl_append_nil r]
+
+theorem nl_append_assoc : ∀ (a b c : NodeList), (a.append b).append c = a.append (b.append c)
+  | .nil, _, _ => rfl
+  | .cons n r, b, c => by simp [NodeList.append, nl_append_assoc r b c]
+
+/-- `t.expect(typ)` on a stream whose head has that type -/
+theorem fexpect_stream' {st : FState} {x : Item} {s : List Item} {t : ItemType} (hpc : st.p.peekCount ≤ 2)
+    (h : stream st.p = x :: s) (ht : x.typ = t) :
+    ∃ st', FileParser.expect t st = .ok (x, st') ∧ stream st'.p = s ∧ top st'.p = x ∧
+      st'.p.peekCount = st.p.peekCount - 1 ∧ Fr st st' := by
+  obtain ⟨p', hn, a, b, c⟩ := next_stream hpc h
+  refine ⟨{ st with p := p' }, ?_, a, b, c, rfl, rfl, rfl⟩
+  have : Parser.expect t st.p = .ok (x, p') := by
+    unfold Parser.expect
+    rw [bind_run, hn]
+    simp only [ht, bne_self_eq_false, Bool.false_eq_true, if_false]
+    rfl
+  simp [FileParser.expect, liftP, this]
+
+/-- `t.peek()` returns the head of the stream and leaves it there -/
+theorem fpeek_stream' {st : FState} {x : Item} {s : List Item} (hpc : st.p.peekCount ≤ 2) (h : stream st.p = x :: s) :
+    ∃ st', FileParser.peek st = .ok (x, st') ∧ stream st'.p = x :: s ∧ st'.p.peekCount ≤ 2 ∧ 1 ≤ st'.p.peekCount ∧
+      Fr st st' := by
+  by_cases hp0 : st.p.peekCount = 0
+  · have hr : st.p.rest = x :: s := by simpa [stream, pending, hp0] using h
+    refine ⟨{ st with p := { st.p with rest := s, peekCount := 1, tok0 := x } }, ?_, by simp [stream, pending], by simp,
+      by simp, rfl, rfl, rfl⟩
+    simp [FileParser.peek, liftP, Parser.peek, bind, StateT.bind, get, getThe, MonadStateOf.get, StateT.get, modify,
+      modifyGet, MonadStateOf.modifyGet, StateT.modifyGet, pure, StateT.pure, Except.pure, Except.bind, nextItem, hp0, hr]
+  · by_cases hp1 : st.p.peekCount = 1
+    · have hx : st.p.tok0 = x ∧ st.p.rest = s := by simpa [stream, pending, hp1] using h
+      refine ⟨st, ?_, h, by omega, by omega, Fr.refl st⟩
+      simp [FileParser.peek, liftP, Parser.peek, bind, StateT.bind, get, getThe, MonadStateOf.get, StateT.get,
+        pure, StateT.pure, Except.pure, Except.bind, tokenAt, hp1, hx.1]
+    · have hp2 : st.p.peekCount = 2 := by omega
+      have hx : st.p.tok1 = x ∧ st.p.tok0 :: st.p.rest = s := by simpa [stream, pending, hp2] using h
+      refine ⟨st, ?_, h, by omega, by omega, Fr.refl st⟩
+      simp [FileParser.peek, liftP, Parser.peek, bind, StateT.bind, get, getThe, MonadStateOf.get, StateT.get,
+        pure, StateT.pure, Except.pure, Except.bind, tokenAt, hp2, hx.1]
+
+/-! ### the simple expressions -/
+
+/-- the value of a digit string -/
+def natVal (ds : Bytes) : Nat := ds.foldl (fun a d => a * 10 + (d.toNat - 48)) 0
+
+/-- the token of a simple expression that ends at `pos` -/
+def exprItem (pos : Nat) : SExp → Item
+  | .var id => ⟨.tDollarIdent, pos, 36 :: id⟩
+  | .int ds => ⟨.tInteger, pos, ds⟩
+
+/-- its node -/
+def exprOf (pos : Nat) : SExp → Expr
+  | .var id => .dataRef pos id .nil
+  | .int ds => .int pos (natVal ds)
+
+theorem elem_items (e : SExp) (q : Nat) : e.elem.items q = [exprItem (q + e.elem.src.length) e] := by
+  cases e with
+  | var id => simp [SExp.elem, Elem.items, exprItem, Elem.src]; omega
+  | int ds => simp [SExp.elem, Elem.items, exprItem, Elem.src]
+
+theorem foldlM_digits : ∀ (ds : Bytes) (acc : Nat), (∀ d ∈ ds, 48 ≤ d.toNat ∧ d.toNat ≤ 57) →
+    ds.foldlM (fun acc d => if 48 ≤ d.toNat && d.toNat ≤ 57 then some (acc * 10 + (d.toNat - 48)) else none) acc =
+      some (ds.foldl (fun a d => a * 10 + (d.toNat - 48)) acc)
+  | [], _, _ => rfl
+  | d :: r, acc, h => by
+    have hd := h d (by simp)
+    have : (decide (48 ≤ d.toNat) && decide (d.toNat ≤ 57)) = true := by simp [hd.1, hd.2]
+    simp only [List.foldlM, this, if_true, List.foldl]
+    exact foldlM_digits r _ (fun x hx => h x (by simp [hx]))
+
+theorem foldl_digits_lt : ∀ (ds : Bytes) (acc : Nat), (∀ d ∈ ds, 48 ≤ d.toNat ∧ d.toNat ≤ 57) →
+    ds.foldl (fun a d => a * 10 + (d.toNat - 48)) acc < (acc + 1) * 10 ^ ds.length
+  | [], acc, _ => by simp
+  | d :: r, acc, h => by
+    have hd := h d (by simp)
+    have ih := foldl_digits_lt r (acc * 10 + (d.toNat - 48)) (fun x hx => h x (by simp [hx]))
+    simp only [List.foldl, List.length_cons]
+    have h1 : (acc * 10 + (d.toNat - 48) + 1) * 10 ^ r.length ≤ ((acc + 1) * 10) * 10 ^ r.length :=
+      Nat.mul_le_mul_right _ (by omega)
+    rw [Nat.pow_succ, Nat.mul_comm (10 ^ r.length) 10, ← Nat.mul_assoc]
+    omega
+
+/-- `strconv.ParseInt` (through `newValueNode`) on a well-formed integer literal -/
+theorem intLiteral_ok {ds : Bytes} (h : intOK ds) : Parser.intLiteral ds = some (natVal ds : Int) := by
+  obtain ⟨hlen, h18, hdig, _⟩ := h
+  have hall : ∀ d ∈ ds, 48 ≤ d.toNat ∧ d.toNat ≤ 57 := by
+    intro d hd
+    obtain ⟨i, hi, rfl⟩ := List.getElem_of_mem hd
+    have := hdig i hi
+    rw [List.getD_eq_getElem?_getD, List.getElem?_eq_getElem hi] at this
+    exact this
+  have hp10 : Parser.parseInt10 ds = some (natVal ds : Int) := by
+    have hdd : Parser.decDigits ds = some (natVal ds) := by
+      unfold Parser.decDigits natVal
+      cases ds with
+      | nil => simp at hlen
+      | cons c r => exact foldlM_digits (c :: r) 0 hall
+    have hlt : natVal ds < 10 ^ 18 := by
+      have := foldl_digits_lt ds 0 hall
+      have h2 : 10 ^ ds.length ≤ 10 ^ 18 := Nat.pow_le_pow_right (by omega) h18
+      unfold natVal; omega
+    have hin : Parser.inInt64 (natVal ds : Int) = true := by
+      simp only [Parser.inInt64, Bool.and_eq_true, decide_eq_true_eq]
+      have : (10 : Nat) ^ 18 = 1000000000000000000 := by decide
+      omega
+    unfold Parser.parseInt10
+    cases ds with
+    | nil => simp at hlen
+    | cons c r =>
+      have hc := hall c (by simp)
+      have h45 : c ≠ 45 := by intro e; rw [e] at hc; simp at hc
+      have h43 : c ≠ 43 := by intro e; rw [e] at hc; simp at hc
+      split
+      · rename_i heq; simp only [List.cons.injEq] at heq; exact absurd heq.1 h45
+      · rename_i heq; simp only [List.cons.injEq] at heq; exact absurd heq.1 h43
+      · simp only [hdd, Option.map_some, Option.bind]
+        have hin' : inInt64 (Int.ofNat (natVal (c :: r))) = true := hin
+        rw [if_pos hin']
+        rfl
+  unfold Parser.intLiteral
+  split
+  · have := hall 120 (by simp)
+    simp at this
+  · exact hp10
+
+
+/-- the tokens that end an expression in this family -/
+def isTerm (t : ItemType) : Prop := t = .tRightDelim ∨ t = .tRightDelimEnd
+
+theorem parseDataRef_term (f : Nat) (rd : Item) (s : List Item) (st : PState) (hpc : st.peekCount ≤ 1)
+    (hs : stream st = rd :: s) (hrd : isTerm rd.typ) :
+    ∃ st', parseDataRef pf (f + 1) st = .ok (.nil, st') ∧ stream st' = rd :: s ∧ st'.peekCount ≤ 1 := by
+  obtain ⟨st1, hn1, hs1, ht1, hp1⟩ := next_stream (by omega) hs
+  obtain ⟨st2, hb2, hs2, hp2⟩ := backup_stream (st := st1) (by omega)
+  refine ⟨st2, ?_, by rw [hs2, ht1, hs1], by omega⟩
+  unfold parseDataRef
+  rw [bind_run, hn1]
+  rcases hrd with h | h <;> (simp only [h]; rw [bind_run, hb2]; rfl)
+
+theorem exprLoop_term (f : Nat) (n : Expr) (rd : Item) (s : List Item) (st : PState) (hpc : st.peekCount ≤ 1)
+    (hs : stream st = rd :: s) (hrd : isTerm rd.typ) :
+    ∃ st', exprLoop pf (f + 1) 0 n st = .ok (n, st') ∧ stream st' = rd :: s ∧ st'.peekCount ≤ 1 := by
+  obtain ⟨st1, hn1, hs1, ht1, hp1⟩ := next_stream (by omega) hs
+  obtain ⟨st2, hb2, hs2, hp2⟩ := backup_stream (st := st1) (by omega)
+  refine ⟨st2, ?_, by rw [hs2, ht1, hs1], by omega⟩
+  unfold exprLoop
+  rw [bind_run, hn1]
+  rcases hrd with h | h
+  · simp only [h, show isBinaryOp .tRightDelim = false by decide, Bool.not_false, Bool.true_or, if_true,
+      show ((0 : Nat) == 0 && ItemType.tRightDelim == ItemType.tTernIf) = false by decide, Bool.false_eq_true, if_false]
+    rw [bind_run, hb2]; rfl
+  · simp only [h, show isBinaryOp .tRightDelimEnd = false by decide, Bool.not_false, Bool.true_or, if_true,
+      show ((0 : Nat) == 0 && ItemType.tRightDelimEnd == ItemType.tTernIf) = false by decide, Bool.false_eq_true, if_false]
+    rw [bind_run, hb2]; rfl
+
+/-- a simple expression before `}` / `/}` -/
+theorem parseExpr_simple (f : Nat) (e : SExp) (pos : Nat) (nxt : Item) (s : List Item) (st : PState)
+    (hpc : st.peekCount ≤ 2) (hs : stream st = exprItem pos e :: nxt :: s) (he : e.ok) (hn : isTerm nxt.typ) :
+    ∃ st', parseExpr pf (f + 4) 0 st = .ok (exprOf pos e, st') ∧ stream st' = nxt :: s ∧ st'.peekCount ≤ 1 := by
+  obtain ⟨st1, hn1, hs1, ht1, hp1⟩ := next_stream hpc hs
+  cases e with
+  | var id =>
+    obtain ⟨st2, hd2, hs2, hp2⟩ := parseDataRef_term pf f nxt s st1 (by omega) hs1 hn
+    obtain ⟨st3, hl3, hs3, hp3⟩ := exprLoop_term pf (f + 2) (.dataRef pos id .nil) nxt s st2 hp2 hs2 hn
+    refine ⟨st3, ?_, hs3, hp3⟩
+    show parseExpr pf ((f + 3) + 1) 0 st = _
+    unfold parseExpr
+    rw [bind_run]
+    have hft : parseExprFirstTerm pf (f + 3) st = .ok (.dataRef pos id .nil, st2) := by
+      show parseExprFirstTerm pf ((f + 2) + 1) st = _
+      unfold parseExprFirstTerm
+      rw [bind_run, hn1]
+      have htyp : (exprItem pos (SExp.var id)).typ = .tDollarIdent := rfl
+      have hval : (exprItem pos (SExp.var id)).val = 36 :: id := rfl
+      simp only [htyp, show isUnaryOp .tDollarIdent = false by decide, Bool.false_eq_true, if_false,
+        show (ItemType.tDollarIdent == ItemType.tLeftParen) = false by decide,
+        show isValue .tDollarIdent = true by decide, if_true]
+      show newValueNode pf ((f + 1) + 1) _ st1 = _
+      unfold newValueNode
+      simp only [htyp, hval]
+      rw [bind_run]
+      show (parseDataRef pf (f + 1) >>= fun acc => pure (Expr.dataRef pos id acc)) st1 = _
+      rw [bind_run, hd2]
+      rfl
+    rw [hft]
+    exact hl3
+  | int ds =>
+    obtain ⟨st3, hl3, hs3, hp3⟩ := exprLoop_term pf (f + 2) (.int pos (natVal ds)) nxt s st1 (by omega) hs1 hn
+    refine ⟨st3, ?_, hs3, hp3⟩
+    show parseExpr pf ((f + 3) + 1) 0 st = _
+    unfold parseExpr
+    rw [bind_run]
+    have hft : parseExprFirstTerm pf (f + 3) st = .ok (.int pos (natVal ds), st1) := by
+      show parseExprFirstTerm pf ((f + 2) + 1) st = _
+      unfold parseExprFirstTerm
+      rw [bind_run, hn1]
+      have htyp : (exprItem pos (SExp.int ds)).typ = .tInteger := rfl
+      have hval : (exprItem pos (SExp.int ds)).val = ds := rfl
+      simp only [htyp, show isUnaryOp .tInteger = false by decide, Bool.false_eq_true, if_false,
+        show (ItemType.tInteger == ItemType.tLeftParen) = false by decide,
+        show isValue .tInteger = true by decide, if_true]
+      show newValueNode pf ((f + 1) + 1) _ st1 = _
+      unfold newValueNode
+      simp only [htyp, hval, intLiteral_ok he]
+      rfl
+    rw [hft]
+    exact hl3
+
+theorem parseExpr0_simple (ef : Nat) (e : SExp) (pos : Nat) (nxt : Item) (s : List Item) (st : FState)
+    (hpc : st.p.peekCount ≤ 2) (hs : stream st.p = exprItem pos e :: nxt :: s) (he : e.ok) (hn : isTerm nxt.typ) :
+    ∃ st', parseExpr0 pf (ef + 4) st = .ok (exprOf pos e, st') ∧ stream st'.p = nxt :: s ∧ st'.p.peekCount ≤ 1 ∧
+      Fr st st' := by
+  obtain ⟨p1, he1, hs1, hp1⟩ := parseExpr_simple pf ef e pos nxt s st.p hpc hs he hn
+  exact ⟨{ st with p := p1 }, by simp only [parseExpr0, liftP, he1], hs1, hp1, rfl, rfl, rfl⟩
+
+
+/-! ## the nodes of a tree, with the positions the parser assigns -/
+
+/-- position of the first token of a stream -/
+def headPos : List Item → Nat
+  | [] => 0
+  | x :: _ => x.pos
+
+/-- the RawText node of a text run that ends at `e` -/
+def textNL (t : Bytes) (e : Nat) : NodeList :=
+  if 0 < t.length ∧ dropped t = false ∧ (joinLines t false false).isEmpty = false then
+    .cons (.rawText e (joinLines t false false)) .nil
+  else .nil
+
+def lenS (l : List Seg) : Nat := (srcSegs l).length
+
+/-- length of the source of a block -/
+def lenBlk (b : Blk) : Nat := lenS (initBlk b) + b.trail.length
+
+mutual
+  /-- the node of the command `c` whose preceding text `t` begins at `q` (its `{` is at `q + |t|`) -/
+  def nodeCmd (q : Nat) (t : Bytes) : Cmd → Node
+    | .print id => .print (q + t.length + 2 + id.length) (.dataRef (q + t.length + 2 + id.length) id .nil) []
+    | .ifc e b tl =>
+      .ifc (q + t.length + 3)
+        (.cons (.ifCond (q + t.length + 3) (some (exprOf (q + t.length + 4 + e.elem.src.length) e))
+            (.list (headPos (itemsSegs (q + t.length + (ifTag e).src.length) (closeBlk b tl.head)))
+              (nodesBlk (q + t.length + (ifTag e).src.length) b)))
+          (condsTail (q + t.length + 3) (q + t.length + (ifTag e).src.length + lenBlk b) tl))
+    | .foreach x e b =>
+      .forc (q + t.length + 8) x (exprOf (q + t.length + 14 + x.length + e.elem.src.length) e)
+        (.list (headPos (itemsSegs (q + t.length + (foreachTag x e).src.length) (closeBlk b (.close kForeach))))
+          (nodesBlk (q + t.length + (foreachTag x e).src.length) b))
+        .nil
+    | .foreachE x e b ie =>
+      .forc (q + t.length + 8) x (exprOf (q + t.length + 14 + x.length + e.elem.src.length) e)
+        (.list (headPos (itemsSegs (q + t.length + (foreachTag x e).src.length) (closeBlk b ifemptyTag)))
+          (nodesBlk (q + t.length + (foreachTag x e).src.length) b))
+        (.cons (.list (headPos (itemsSegs (q + t.length + (foreachTag x e).src.length + lenBlk b + ifemptyTag.src.length)
+              (closeBlk ie (.close kForeach))))
+            (nodesBlk (q + t.length + (foreachTag x e).src.length + lenBlk b + ifemptyTag.src.length) ie)) .nil)
+    | .letv x e => .letValue (q + t.length + 4) x (exprOf (q + t.length + 8 + x.length + e.elem.src.length) e)
+    | .letc x b =>
+      .letContent (q + t.length + 4) x
+        (.list (headPos (itemsSegs (q + t.length + (letcTag x).src.length) (closeBlk b (.close kLet))))
+          (nodesBlk (q + t.length + (letcTag x).src.length) b))
+  /-- the nodes of a block that begins at `q` -/
+  def nodesBlk (q : Nat) : Blk → NodeList
+    | .done t => textNL t (q + t.length)
+    | .cons t c r => (textNL t (q + t.length)).append (.cons (nodeCmd q t c) (nodesBlk (q + lenS (segsCmd t c)) r))
+  /-- the conditions behind the first one; `pos` = position of the `if` token, `qt` = where the
+      first tag of the tail begins -/
+  def condsTail (pos qt : Nat) : IfTail → NodeList
+    | .fi => .nil
+    | .els b =>
+      .cons (.ifCond pos none
+        (.list (headPos (itemsSegs (qt + elseTag.src.length) (closeBlk b (.close kIf))))
+          (nodesBlk (qt + elseTag.src.length) b))) .nil
+    | .elif e b r =>
+      .cons (.ifCond pos (some (exprOf (qt + 8 + e.elem.src.length) e))
+        (.list (headPos (itemsSegs (qt + (elseifTag e).src.length) (closeBlk b r.head)))
+          (nodesBlk (qt + (elseifTag e).src.length) b)))
+        (condsTail pos (qt + (elseifTag e).src.length + lenBlk b) r)
+end
+
+/-- the nodes `parse.SoyFile` returns for the template body `b` -/
+def nodesOf (b : Blk) : List Node := (nodesBlk 0 b).toList
+
+
+/-! ## parser: `itemList` step by step -/
+
+/-- the end-token sets of the family contain none of the tokens a piece begins with -/
+def untlOK (untl : List ItemType) : Prop :=
+  untl.contains .tText = false ∧ untl.contains .tLeftDelim = false ∧ untl.contains .tDollarIdent = false ∧
+  untl.contains .tIf = false ∧ untl.contains .tForeach = false ∧ untl.contains .tLet = false
+
+instance (untl : List ItemType) : Decidable (untlOK untl) := by unfold untlOK; infer_instance
+
+/-- the tag `g` ends an `itemList(untl…)` -/
+def Stops (untl : List ItemType) : Tag → Prop
+  | .eof => untl.contains .tEOF = true
+  | .close w => untl.contains (closeType w) = true
+  | .open es _ =>
+    match es with
+    | .word wd :: _ => untl.contains (wordType wd) = true
+    | _ => False
+
+theorem stops_items {untl : List ItemType} {g : Tag} (h : Stops untl g) (qg : Nat) :
+    (g = .eof ∧ untl.contains .tEOF = true) ∨
+    (g ≠ .eof ∧ ∃ k more, g.items qg = ⟨.tLeftDelim, qg + 1, [123]⟩ :: k :: more ∧ untl.contains k.typ = true) := by
+  cases g with
+  | eof => exact Or.inl ⟨rfl, h⟩
+  | close w => exact Or.inr ⟨by simp, _, _, rfl, h⟩
+  | «open» es sc =>
+    cases es with
+    | nil => exact h.elim
+    | cons e r =>
+      cases e with
+      | word wd => exact Or.inr ⟨by simp, ⟨wordType wd, qg + 1 + wd.length, wd⟩, _, rfl, h⟩
+      | sp => exact h.elim
+      | dollar _ => exact h.elim
+      | dotIdent _ => exact h.elim
+      | colon => exact h.elim
+      | int _ => exact h.elim
+
+theorem skipComments_id (fuel : Nat) (token : Item) (st : FState) (hc : token.typ ≠ .tComment) :
+    skipComments (fuel + 1) token st = .ok (token, st) := by
+  unfold skipComments
+  have : (token.typ == ItemType.tComment) = false := by simpa using hc
+  simp [this, pure, StateT.pure, Except.pure]
+
+theorem itemListLoop_succ (ef fuel : Nat) (untl : List ItemType) (lpos : Option Nat) (nodes : NodeList) :
+    itemListLoop pf ef (fuel + 1) untl lpos nodes = (do
+      let token ← FileParser.next
+      let (node, halt) ← textOrTag pf ef fuel token untl
+      if halt then pure (.list (lpos.getD token.pos) nodes)
+      else
+        match node with
+        | some n => itemListLoop pf ef fuel untl (some (lpos.getD token.pos)) (nodes.append (.cons n .nil))
+        | none => itemListLoop pf ef fuel untl (some (lpos.getD token.pos)) nodes) := by
+  rw [itemListLoop]
+  rfl
+
+/-- the closing tag (or the end of input) ends the list -/
+theorem stop_iter (ef f : Nat) (untl : List ItemType) (lpos : Option Nat) (nodes : NodeList) (st : FState) (g : Tag)
+    (qg : Nat) (rest : List Item) (hst : Stops untl g) (hu : untlOK untl) (hpc : st.p.peekCount ≤ 2)
+    (hs : stream st.p = g.items qg ++ rest) :
+    ∃ st', itemListLoop pf ef (f + 3) untl lpos nodes st = .ok (.list (lpos.getD (headPos (g.items qg))) nodes, st') ∧
+      stream st'.p = (g.items qg).drop 2 ++ rest ∧
+      (g ≠ .eof → top st'.p = (g.items qg).getD 1 Item.zero ∧ st'.p.peekCount = 0) ∧ Fr st st' := by
+  rcases stops_items hst qg with ⟨rfl, hue⟩ | ⟨hne, k, more, hit, huk⟩
+  · obtain ⟨st1, hn1, hs1, ht1, hp1, hfr1⟩ := fnext_stream' hpc (show stream st.p = ⟨.tEOF, qg, []⟩ :: rest from hs)
+    have hun := textOrTag_until pf ef f untl ⟨.tEOF, qg, []⟩ st1 (by simp) hue
+    refine ⟨st1, ?_, by simpa [Tag.items] using hs1, fun h => absurd rfl h, hfr1⟩
+    show itemListLoop pf ef ((f + 2) + 1) untl lpos nodes st = _
+    unfold itemListLoop
+    rw [fbind_run, hn1]
+    simp only
+    rw [fbind_run, hun]
+    rfl
+  · rw [hit] at hs ⊢
+    obtain ⟨st1, hn1, hs1, ht1, hp1, hfr1⟩ := fnext_stream' hpc (show stream st.p = _ :: (k :: (more ++ rest)) from hs)
+    obtain ⟨st2, hn2, hs2, ht2, hp2, hfr2⟩ := fnext_stream' (st := st1) (by omega) hs1
+    refine ⟨st2, ?_, by simpa using hs2, fun _ => ⟨by simpa using ht2, by omega⟩, hfr1.trans hfr2⟩
+    show itemListLoop pf ef ((f + 2) + 1) untl lpos nodes st = _
+    unfold itemListLoop
+    rw [fbind_run, hn1]
+    simp only
+    rw [fbind_run]
+    have hto : textOrTag pf ef (f + 2) ⟨.tLeftDelim, qg + 1, [123]⟩ untl st1 = .ok ((none, true), st2) := by
+      show textOrTag pf ef ((f + 1) + 1) _ untl st1 = _
+      unfold textOrTag
+      simp only
+      rw [fbind_run, skipComments_id f _ st1 (by simp)]
+      simp only [hu.2.1, Bool.false_eq_true, if_false]
+      rw [fbind_run, hn2]
+      simp only [huk, beq_self_eq_true, Bool.and_self, if_true]
+      rfl
+    rw [hto]
+    rfl
+
+/-- a text run (if it yields a token) is one round of the loop -/
+theorem text_iter (ef fuel : Nat) (untl : List ItemType) (lpos : Option Nat) (nodes : NodeList) (st : FState) (t : Bytes)
+    (e : Nat) (nxt : Item) (s' : List Item) (hpc : st.p.peekCount ≤ 2) (hs : stream st.p = textItem t e ++ nxt :: s')
+    (hnt : nxt.typ ≠ .tText) (hnc : nxt.typ ≠ .tComment) (hu : untl.contains .tText = false) (hf : 5 ≤ fuel) :
+    ∃ (st' : FState) (fuel' : Nat) (lpos' : Option Nat),
+      itemListLoop pf ef fuel untl lpos nodes st = itemListLoop pf ef fuel' untl lpos' (nodes.append (textNL t e)) st' ∧
+      stream st'.p = nxt :: s' ∧ st'.p.peekCount ≤ 2 ∧ Fr st st' ∧ fuel ≤ fuel' + 1 ∧
+      lpos'.getD nxt.pos = lpos.getD (headPos (textItem t e ++ nxt :: s')) := by
+  by_cases hemit : 0 < t.length ∧ dropped t = false
+  · have hti : textItem t e = [⟨.tText, e, t⟩] := by simp [textItem, hemit]
+    rw [hti] at hs ⊢
+    obtain ⟨f, rfl⟩ : ∃ f, fuel = f + 5 := ⟨fuel - 5, by omega⟩
+    obtain ⟨st1, hn1, hs1, ht1, hp1, hfr1⟩ := fnext_stream' hpc (show stream st.p = _ :: (nxt :: s') from hs)
+    obtain ⟨st2, hto, hs2, hp2, hfr2⟩ := textOrTag_text_spec' pf ef (f + 3) untl ⟨.tText, e, t⟩ st1 []
+      ⟨.tText, e, t⟩ [] nxt s' (by omega) ht1 (by rw [hs1]; rfl) (fun _ h => absurd h (by simp)) rfl
+      (fun _ h => absurd h (by simp)) hnt hu (by simp)
+    have hcm : (nxt.typ == ItemType.tComment) = false := by simpa using hnc
+    have htn : textNode [] ⟨.tText, e, t⟩ [] nxt =
+        if (joinLines t false false).isEmpty then none else some (.rawText e (joinLines t false false)) := by
+      simp only [textNode, List.flatMap_nil, List.append_nil, List.isEmpty_nil, Bool.not_true, hcm]
+    rw [htn] at hto
+    refine ⟨st2, f + 4, some (lpos.getD e), ?_, hs2, hp2, hfr1.trans hfr2, by omega, by simp [headPos]⟩
+    show itemListLoop pf ef ((f + 4) + 1) untl lpos nodes st = _
+    rw [itemListLoop_succ, fbind_run, hn1]
+    simp only
+    rw [fbind_run, hto]
+    simp only [Bool.false_eq_true, if_false]
+    by_cases hj : (joinLines t false false).isEmpty = true
+    · simp only [hj, if_true]
+      have : textNL t e = .nil := by simp [textNL, hj]
+      rw [this, nl_append_nil]
+    · have hj' : (joinLines t false false).isEmpty = false := by simpa using hj
+      simp only [hj', Bool.false_eq_true, if_false]
+      have : textNL t e = .cons (.rawText e (joinLines t false false)) .nil := by simp [textNL, hemit, hj']
+      rw [this]
+  · have hti : textItem t e = [] := by simp only [textItem, hemit, if_false]
+    have htl : textNL t e = .nil := by
+      unfold textNL
+      rw [if_neg (fun h => hemit ⟨h.1, h.2.1⟩)]
+    rw [hti] at hs ⊢
+    refine ⟨st, fuel, lpos, by rw [htl, nl_append_nil], by simpa using hs, hpc, Fr.refl st, by omega, ?_⟩
+    simp [headPos]
+
+/-- a command: `textOrTag` on its `{` calls `beginTag` -/
+theorem begin_iter (ef f : Nat) (untl : List ItemType) (lpos : Option Nat) (nodes : NodeList) (st : FState)
+    (ld k : Item) (s' rest' : List Item) (n : Node) (hpc : st.p.peekCount ≤ 2) (hs : stream st.p = ld :: k :: s')
+    (hld : ld.typ = .tLeftDelim) (hu1 : untl.contains .tLeftDelim = false) (hu2 : untl.contains k.typ = false)
+    (hbt : ∀ st2 : FState, stream st2.p = k :: s' → st2.p.peekCount ≤ 1 → Fr st st2 →
+      ∃ st3, beginTag pf ef (f + 1) st2 = .ok (some n, st3) ∧ stream st3.p = rest' ∧ st3.p.peekCount ≤ 2 ∧ Fr st2 st3) :
+    ∃ st3, itemListLoop pf ef (f + 3) untl lpos nodes st =
+        itemListLoop pf ef (f + 2) untl (some (lpos.getD ld.pos)) (nodes.append (.cons n .nil)) st3 ∧
+      stream st3.p = rest' ∧ st3.p.peekCount ≤ 2 ∧ Fr st st3 := by
+  obtain ⟨st1, hn1, hs1, ht1, hp1, hfr1⟩ := fnext_stream' hpc hs
+  obtain ⟨st1', hn1', hs1', ht1', hp1', hfr1'⟩ := fnext_stream' (st := st1) (by omega) hs1
+  obtain ⟨st2, hb2, hs2, hp2, hfr2⟩ := fbackup_stream' (st := st1') (by omega)
+  rw [ht1', hs1'] at hs2
+  obtain ⟨st3, hbt3, hs3, hp3, hfr3⟩ := hbt st2 hs2 (by omega) ((hfr1.trans hfr1').trans hfr2)
+  refine ⟨st3, ?_, hs3, hp3, ((hfr1.trans hfr1').trans hfr2).trans hfr3⟩
+  show itemListLoop pf ef ((f + 2) + 1) untl lpos nodes st = _
+  rw [itemListLoop_succ, fbind_run, hn1]
+  simp only
+  rw [fbind_run]
+  have hto : textOrTag pf ef (f + 2) ld untl st1 = .ok ((some n, false), st3) := by
+    show textOrTag pf ef ((f + 1) + 1) ld untl st1 = _
+    unfold textOrTag
+    simp only
+    rw [fbind_run, skipComments_id f _ st1 (by rw [hld]; decide)]
+    simp only [hld, hu1, Bool.false_eq_true, if_false]
+    rw [fbind_run, hn1']
+    simp only [hu2, Bool.and_false, Bool.false_eq_true, if_false]
+    rw [fbind_run, hb2]
+    simp only [show (ItemType.tLeftDelim == ItemType.tText) = false by decide, Bool.false_eq_true, if_false,
+      beq_self_eq_true, if_true]
+    rw [fbind_run, hbt3]
+    rfl
+  rw [hto]
+  simp only [Bool.false_eq_true, if_false]
+
+
+/-! ## parser: the statements of the mutual induction -/
+
+/-- the part of `parseIf`'s loop behind the body -/
+def ifCont (ef fuel pos : Nat) (isElse : Bool) (conds : NodeList) : FP Node := do
+  FileParser.backup
+  let t ← FileParser.next
+  if t.typ == .tElseif then ifLoop pf ef fuel pos isElse conds
+  else if t.typ == .tElse then ifLoop pf ef fuel pos true conds
+  else if t.typ == .tIfEnd then do
+    let _ ← FileParser.expect .tRightDelim
+    pure (.ifc pos conds)
+  else ifLoop pf ef fuel pos isElse conds
+
+theorem ifLoop_succ (ef fuel pos : Nat) (isElse : Bool) (conds : NodeList) :
+    ifLoop pf ef (fuel + 1) pos isElse conds = (do
+      let condExpr ← (if !isElse then do
+          let e ← parseExpr0 pf ef
+          pure (some e)
+        else pure none : FP (Option Expr))
+      let _ ← FileParser.expect .tRightDelim
+      let body ← itemListLoop pf ef fuel [.tElseif, .tElse, .tIfEnd] none .nil
+      ifCont pf ef fuel pos isElse (conds.append (.cons (.ifCond pos condExpr body) .nil))) := by
+  rw [ifLoop]
+  rfl
+
+/-- `itemList(untl…)` on the tokens of the block `b` closed by the tag `g` -/
+def BlkSpec (ef : Nat) (b : Blk) : Prop :=
+  ∀ (g : Tag) (untl : List ItemType) (q fuel : Nat) (lpos : Option Nat) (nodes : NodeList) (st : FState) (rest : List Item),
+    Stops untl g → untlOK untl → st.inmsg = false → st.p.peekCount ≤ 2 →
+    stream st.p = itemsSegs q (closeBlk b g) ++ rest → 4 * (itemsSegs q (closeBlk b g)).length + 16 ≤ fuel →
+    ∃ st', itemListLoop pf (ef + 4) fuel untl lpos nodes st =
+        .ok (.list (lpos.getD (headPos (itemsSegs q (closeBlk b g)))) (nodes.append (nodesBlk q b)), st') ∧
+      stream st'.p = (g.items (q + lenBlk b)).drop 2 ++ rest ∧
+      (g ≠ .eof → top st'.p = (g.items (q + lenBlk b)).getD 1 Item.zero ∧ st'.p.peekCount = 0) ∧ Fr st st'
+
+/-- `beginTag` on the tokens of the command `c` behind its `{` -/
+def CmdSpec (ef : Nat) (c : Cmd) : Prop :=
+  ∀ (q : Nat) (t : Bytes) (fuel : Nat) (st : FState) (rest : List Item),
+    st.inmsg = false → st.p.peekCount ≤ 2 →
+    stream st.p = (itemsSegs q (segsCmd t c)).drop ((textItem t (q + t.length)).length + 1) ++ rest →
+    4 * (itemsSegs q (segsCmd t c)).length + 8 ≤ fuel →
+    ∃ st', beginTag pf (ef + 4) fuel st = .ok (some (nodeCmd q t c), st') ∧ stream st'.p = rest ∧
+      st'.p.peekCount ≤ 2 ∧ Fr st st'
+
+/-- `parseIf`'s loop behind a body, on the tokens of the if tail `tl` (whose first tag's `{` and
+    keyword have been read by `itemList`) -/
+def TailSpec (ef : Nat) (tl : IfTail) : Prop :=
+  ∀ (qt fuel pos : Nat) (conds : NodeList) (isElse : Bool) (st : FState) (rest : List Item),
+    (isElse = false ∨ tl = .fi) → st.inmsg = false → st.p.peekCount = 0 →
+    top st.p = (tl.head.items qt).getD 1 Item.zero →
+    stream st.p = (tl.head.items qt).drop 2 ++ (itemsSegs (qt + tl.head.src.length) (segsTail tl) ++ rest) →
+    4 * ((tl.head.items qt).length + (itemsSegs (qt + tl.head.src.length) (segsTail tl)).length) + 16 ≤ fuel →
+    ∃ st', ifCont pf (ef + 4) fuel pos isElse conds st = .ok (.ifc pos (conds.append (condsTail pos qt tl)), st') ∧
+      stream st'.p = rest ∧ st'.p.peekCount ≤ 2 ∧ Fr st st'
+
+theorem drop_len_succ {α : Type} (a : List α) (x : α) (s : List α) : (a ++ x :: s).drop (a.length + 1) = s := by
+  induction a with
+  | nil => rfl
+  | cons y r ih => simpa using ih
+
+theorem tail_fi (ef : Nat) : TailSpec pf ef .fi := by
+  intro qt fuel pos conds isElse st rest _ hin hpc htop hs hf
+  simp only [IfTail.head, Tag.items, segsTail, itemsSegs, List.nil_append, List.drop, List.getD_cons_succ,
+    List.getD_cons_zero, List.cons_append] at htop hs
+  obtain ⟨st1, hb1, hs1, hp1, hfr1⟩ := fbackup_stream' (st := st) (by omega)
+  rw [htop, hs] at hs1
+  obtain ⟨st2, hn2, hs2, ht2, hp2, hfr2⟩ := fnext_stream' (st := st1) (by omega) hs1
+  obtain ⟨st3, he3, hs3, ht3, hp3, hfr3⟩ := fexpect_stream' (st := st2) (t := .tRightDelim) (by omega) hs2 rfl
+  refine ⟨st3, ?_, hs3, by omega, (hfr1.trans hfr2).trans hfr3⟩
+  unfold ifCont
+  rw [fbind_run, hb1]
+  simp only
+  rw [fbind_run, hn2]
+  have hct : closeType kIf = .tIfEnd := by decide
+  simp only [hct, show (ItemType.tIfEnd == ItemType.tElseif) = false by decide,
+    show (ItemType.tIfEnd == ItemType.tElse) = false by decide, beq_self_eq_true, Bool.false_eq_true, if_false, if_true]
+  rw [fbind_run, he3]
+  simp only [condsTail, nl_append_nil]
+  rfl
+
+
+theorem stops_head {untl : List ItemType} {g : Tag} (h : Stops untl g) (qg : Nat) :
+    ∃ nxt s', g.items qg = nxt :: s' ∧ nxt.typ ≠ .tText ∧ nxt.typ ≠ .tComment := by
+  rcases stops_items h qg with ⟨rfl, _⟩ | ⟨_, k, more, hit, _⟩
+  · exact ⟨_, _, rfl, by simp, by simp⟩
+  · exact ⟨_, _, hit, by simp, by simp⟩
+
+theorem blk_done (ef : Nat) (t : Bytes) : BlkSpec pf ef (.done t) := by
+  intro g untl q fuel lpos nodes st rest hst hu hin hpc hs hf
+  have hcl : itemsSegs q (closeBlk (.done t) g) = textItem t (q + t.length) ++ g.items (q + t.length) := by
+    simp [closeBlk, initBlk, Blk.trail, itemsSegs]
+  rw [hcl] at hs hf ⊢
+  obtain ⟨nxt, s', hg, hnt, hnc⟩ := stops_head hst (q + t.length)
+  have hlen : lenBlk (.done t) = t.length := by simp [lenBlk, initBlk, Blk.trail, lenS, srcSegs]
+  rw [hlen]
+  rw [hg] at hs hf
+  obtain ⟨st1, fuel1, lpos1, hit, hs1, hp1, hfr1, hfu1, hlp1⟩ := text_iter pf (ef + 4) fuel untl lpos nodes st t (q + t.length)
+    nxt (s' ++ rest) hpc (by simpa using hs) hnt hnc hu.1 (by omega)
+  obtain ⟨f, rfl⟩ : ∃ f, fuel1 = f + 3 := ⟨fuel1 - 3, by omega⟩
+  obtain ⟨st2, hl2, hs2, ht2, hfr2⟩ := stop_iter pf (ef + 4) f untl lpos1 (nodes.append (textNL t (q + t.length))) st1 g
+    (q + t.length) rest hst hu hp1 (by rw [hs1, hg]; simp)
+  refine ⟨st2, ?_, hs2, ht2, hfr1.trans hfr2⟩
+  rw [hit, hl2]
+  have e1 : lpos1.getD (headPos (g.items (q + t.length))) =
+      lpos.getD (headPos (textItem t (q + t.length) ++ g.items (q + t.length))) := by
+    rw [hg]
+    have : headPos (textItem t (q + t.length) ++ nxt :: s') = headPos (textItem t (q + t.length) ++ nxt :: (s' ++ rest)) := by
+      cases textItem t (q + t.length) <;> rfl
+    rw [this, ← hlp1]; rfl
+  rw [e1]
+  simp [nodesBlk]
+
+/-- the first tokens of a command: `{` and a token that is in no end-token set -/
+theorem segsCmd_items (q : Nat) (t : Bytes) (c : Cmd) :
+    ∃ k s0, itemsSegs q (segsCmd t c) = textItem t (q + t.length) ++ ⟨.tLeftDelim, q + t.length + 1, [123]⟩ :: k :: s0 ∧
+      (k.typ = .tDollarIdent ∨ k.typ = .tIf ∨ k.typ = .tForeach ∨ k.typ = .tLet) := by
+  cases c with
+  | print id =>
+    have e : itemsSegs q (segsCmd t (.print id)) = textItem t (q + t.length) ++
+        ((printTag id).items (q + t.length) ++ itemsSegs (q + t.length + (printTag id).src.length) ([])) := by
+      simp only [segsCmd, itemsSegs, List.append_assoc]
+    rw [e]
+    exact ⟨_, _, rfl, Or.inl rfl⟩
+  | ifc e b tl =>
+    have e : itemsSegs q (segsCmd t (.ifc e b tl)) = textItem t (q + t.length) ++
+        ((ifTag e).items (q + t.length) ++ itemsSegs (q + t.length + (ifTag e).src.length) (initBlk b ++ [(b.trail, tl.head)] ++ segsTail tl)) := by
+      simp only [segsCmd, itemsSegs, List.append_assoc]
+    rw [e]
+    exact ⟨_, _, rfl, Or.inr (Or.inl (by decide : wordType kIf = .tIf))⟩
+  | foreach x e b =>
+    have e : itemsSegs q (segsCmd t (.foreach x e b)) = textItem t (q + t.length) ++
+        ((foreachTag x e).items (q + t.length) ++ itemsSegs (q + t.length + (foreachTag x e).src.length) (initBlk b ++ [(b.trail, .close kForeach)])) := by
+      simp only [segsCmd, itemsSegs, List.append_assoc]
+    rw [e]
+    exact ⟨_, _, rfl, Or.inr (Or.inr (Or.inl (by decide : wordType kForeach = .tForeach)))⟩
+  | foreachE x e b ie =>
+    have e : itemsSegs q (segsCmd t (.foreachE x e b ie)) = textItem t (q + t.length) ++
+        ((foreachTag x e).items (q + t.length) ++ itemsSegs (q + t.length + (foreachTag x e).src.length) (initBlk b ++ [(b.trail, ifemptyTag)] ++ (initBlk ie ++ [(ie.trail, .close kForeach)]))) := by
+      simp only [segsCmd, itemsSegs, List.append_assoc]
+    rw [e]
+    exact ⟨_, _, rfl, Or.inr (Or.inr (Or.inl (by decide : wordType kForeach = .tForeach)))⟩
+  | letv x e =>
+    have e : itemsSegs q (segsCmd t (.letv x e)) = textItem t (q + t.length) ++
+        ((letvTag x e).items (q + t.length) ++ itemsSegs (q + t.length + (letvTag x e).src.length) ([])) := by
+      simp only [segsCmd, itemsSegs, List.append_assoc]
+    rw [e]
+    exact ⟨_, _, rfl, Or.inr (Or.inr (Or.inr (by decide : wordType kLet = .tLet)))⟩
+  | letc x b =>
+    have e : itemsSegs q (segsCmd t (.letc x b)) = textItem t (q + t.length) ++
+        ((letcTag x).items (q + t.length) ++ itemsSegs (q + t.length + (letcTag x).src.length) (initBlk b ++ [(b.trail, .close kLet)])) := by
+      simp only [segsCmd, itemsSegs, List.append_assoc]
+    rw [e]
+    exact ⟨_, _, rfl, Or.inr (Or.inr (Or.inr (by decide : wordType kLet = .tLet)))⟩
+
+theorem blk_cons (ef : Nat) (t : Bytes) (c : Cmd) (r : Blk) (hc : CmdSpec pf ef c) (hr : BlkSpec pf ef r) :
+    BlkSpec pf ef (.cons t c r) := by
+  intro g untl q fuel lpos nodes st rest hst hu hin hpc hs hf
+  have hcl : itemsSegs q (closeBlk (.cons t c r) g) =
+      itemsSegs q (segsCmd t c) ++ itemsSegs (q + lenS (segsCmd t c)) (closeBlk r g) := by
+    simp only [closeBlk, initBlk, Blk.trail, List.append_assoc, itemsSegs_append, lenS]
+  obtain ⟨k, s0, hcs, hk⟩ := segsCmd_items q t c
+  have hku : untl.contains k.typ = false := by
+    rcases hk with h | h | h | h <;> rw [h]
+    · exact hu.2.2.1
+    · exact hu.2.2.2.1
+    · exact hu.2.2.2.2.1
+    · exact hu.2.2.2.2.2
+  rw [hcl] at hs hf ⊢
+  have hlc : (itemsSegs q (segsCmd t c)).length = (textItem t (q + t.length)).length + 2 + s0.length := by
+    rw [hcs]; simp; omega
+  rw [hcs] at hs
+  obtain ⟨st1, fuel1, lpos1, hit, hs1, hp1, hfr1, hfu1, hlp1⟩ := text_iter pf (ef + 4) fuel untl lpos nodes st t (q + t.length)
+    ⟨.tLeftDelim, q + t.length + 1, [123]⟩
+    (k :: s0 ++ (itemsSegs (q + lenS (segsCmd t c)) (closeBlk r g) ++ rest)) hpc (by simpa using hs) (by simp) (by simp) hu.1
+    (by simp only [List.length_append] at hf; omega)
+  obtain ⟨f, rfl⟩ : ∃ f, fuel1 = f + 3 := ⟨fuel1 - 3, by simp only [List.length_append] at hf; omega⟩
+  obtain ⟨st2, hl2, hs2, hp2, hfr2⟩ := begin_iter pf (ef + 4) f untl lpos1 (nodes.append (textNL t (q + t.length))) st1
+    ⟨.tLeftDelim, q + t.length + 1, [123]⟩ k (s0 ++ (itemsSegs (q + lenS (segsCmd t c)) (closeBlk r g) ++ rest))
+    (itemsSegs (q + lenS (segsCmd t c)) (closeBlk r g) ++ rest) (nodeCmd q t c) hp1 (by simpa using hs1) rfl hu.2.1 hku
+    (by
+      intro st2 hs2 hp2 hfr
+      have := hc q t (f + 1) st2 (itemsSegs (q + lenS (segsCmd t c)) (closeBlk r g) ++ rest)
+        (by rw [(hfr1.trans hfr).2.2]; exact hin) (by omega)
+        (by rw [hcs, drop_len_succ, hs2]; simp)
+        (by simp only [List.length_append] at hf; omega)
+      exact this)
+  obtain ⟨st3, hl3, hs3, ht3, hfr3⟩ := hr g untl (q + lenS (segsCmd t c)) (f + 2)
+    (some (lpos1.getD (q + t.length + 1)))
+    ((nodes.append (textNL t (q + t.length))).append (.cons (nodeCmd q t c) .nil)) st2 rest hst hu
+    (by rw [(hfr1.trans hfr2).2.2]; exact hin) hp2 hs2 (by simp only [List.length_append] at hf; omega)
+  have hlen : lenBlk (.cons t c r) = lenS (segsCmd t c) + lenBlk r := by
+    simp [lenBlk, initBlk, Blk.trail, lenS, srcSegs_append]; omega
+  refine ⟨st3, ?_, by rw [hlen, ← Nat.add_assoc]; exact hs3, by rw [hlen, ← Nat.add_assoc]; exact ht3,
+    (hfr1.trans hfr2).trans hfr3⟩
+  rw [hit, hl2, hl3]
+  have e1 : lpos1.getD (q + t.length + 1) =
+      lpos.getD (headPos (itemsSegs q (segsCmd t c) ++ itemsSegs (q + lenS (segsCmd t c)) (closeBlk r g))) := by
+    have := hlp1
+    simp only at this
+    rw [this, hcs]
+    cases textItem t (q + t.length) <;> rfl
+  simp only [Option.getD_some, e1, nodesBlk, nl_append_assoc, NodeList.append]
+
+
+/-! ### the items of the family's tags -/
+
+theorem items_sp (q : Nat) : Elem.sp.items q = [] := rfl
+theorem items_word (q : Nat) (w : Bytes) : (Elem.word w).items q = [⟨wordType w, q + w.length, w⟩] := rfl
+theorem items_dollar (q : Nat) (id : Bytes) : (Elem.dollar id).items q = [⟨.tDollarIdent, q + 1 + id.length, 36 :: id⟩] := rfl
+theorem items_colon (q : Nat) : Elem.colon.items q = [⟨.tColon, q + 1, [58]⟩] := rfl
+theorem src_sp : Elem.sp.src = [32] := rfl
+theorem src_word (w : Bytes) : (Elem.word w).src = w := rfl
+theorem src_dollar (id : Bytes) : (Elem.dollar id).src = 36 :: id := rfl
+theorem src_colon : Elem.colon.src = [58] := rfl
+theorem len_kIf : kIf.length = 2 := rfl
+theorem len_kElseif : kElseif.length = 6 := rfl
+theorem len_kElse : kElse.length = 4 := rfl
+theorem len_kForeach : kForeach.length = 7 := rfl
+theorem len_kIfempty : kIfempty.length = 7 := rfl
+theorem len_kLet : kLet.length = 3 := rfl
+theorem len_kwIn : kwIn.length = 2 := rfl
+
+/-- unfold the items / the source of a concrete tag -/
+macro "tag_unfold" : tactic => `(tactic|
+  simp only [Tag.items, itemsEs, items_sp, items_word, items_dollar, items_colon, elem_items, srcEs, src_sp, src_word,
+    src_dollar, src_colon, Tag.src, closeBytes, List.length_cons, List.length_nil, List.length_append, List.cons_append,
+    List.nil_append, List.append_nil, Bool.false_eq_true, if_false, if_true, len_kIf, len_kElseif, len_kElse, len_kForeach,
+    len_kIfempty, len_kLet, len_kwIn])
+
+macro "arith_items" : tactic => `(tactic|
+  (simp only [List.cons.injEq, Item.mk.injEq, and_true, true_and]
+   repeat' constructor
+   all_goals first | omega | decide | (congr 1; omega) | rfl))
+
+theorem printTag_items (id : Bytes) (Q : Nat) :
+    (printTag id).items Q = [⟨.tLeftDelim, Q + 1, [123]⟩, ⟨.tDollarIdent, Q + 2 + id.length, 36 :: id⟩,
+      ⟨.tRightDelim, Q + 3 + id.length, [125]⟩] ∧ (printTag id).src.length = 3 + id.length := by
+  unfold printTag
+  tag_unfold
+  arith_items
+
+theorem ifTag_items (e : SExp) (Q : Nat) :
+    (ifTag e).items Q = [⟨.tLeftDelim, Q + 1, [123]⟩, ⟨.tIf, Q + 3, kIf⟩, exprItem (Q + 4 + e.elem.src.length) e,
+      ⟨.tRightDelim, Q + 5 + e.elem.src.length, [125]⟩] ∧ (ifTag e).src.length = 5 + e.elem.src.length := by
+  unfold ifTag
+  tag_unfold
+  arith_items
+
+theorem elseifTag_items (e : SExp) (Q : Nat) :
+    (elseifTag e).items Q = [⟨.tLeftDelim, Q + 1, [123]⟩, ⟨.tElseif, Q + 7, kElseif⟩, exprItem (Q + 8 + e.elem.src.length) e,
+      ⟨.tRightDelim, Q + 9 + e.elem.src.length, [125]⟩] ∧ (elseifTag e).src.length = 9 + e.elem.src.length := by
+  unfold elseifTag
+  tag_unfold
+  arith_items
+
+theorem elseTag_items (Q : Nat) :
+    elseTag.items Q = [⟨.tLeftDelim, Q + 1, [123]⟩, ⟨.tElse, Q + 5, kElse⟩, ⟨.tRightDelim, Q + 6, [125]⟩] ∧
+      elseTag.src.length = 6 := by
+  unfold elseTag
+  tag_unfold
+  arith_items
+
+theorem ifemptyTag_items (Q : Nat) :
+    ifemptyTag.items Q = [⟨.tLeftDelim, Q + 1, [123]⟩, ⟨.tIfempty, Q + 8, kIfempty⟩, ⟨.tRightDelim, Q + 9, [125]⟩] ∧
+      ifemptyTag.src.length = 9 := by
+  unfold ifemptyTag
+  tag_unfold
+  arith_items
+
+theorem closeIf_items (Q : Nat) :
+    (Tag.close kIf).items Q = [⟨.tLeftDelim, Q + 1, [123]⟩, ⟨.tIfEnd, Q + 4, 47 :: kIf⟩, ⟨.tRightDelim, Q + 5, [125]⟩] ∧
+      (Tag.close kIf).src.length = 5 := by
+  tag_unfold
+  arith_items
+
+theorem closeForeach_items (Q : Nat) :
+    (Tag.close kForeach).items Q = [⟨.tLeftDelim, Q + 1, [123]⟩, ⟨.tForeachEnd, Q + 9, 47 :: kForeach⟩,
+      ⟨.tRightDelim, Q + 10, [125]⟩] ∧ (Tag.close kForeach).src.length = 10 := by
+  tag_unfold
+  arith_items
+
+theorem closeLet_items (Q : Nat) :
+    (Tag.close kLet).items Q = [⟨.tLeftDelim, Q + 1, [123]⟩, ⟨.tLetEnd, Q + 5, 47 :: kLet⟩, ⟨.tRightDelim, Q + 6, [125]⟩] ∧
+      (Tag.close kLet).src.length = 6 := by
+  tag_unfold
+  arith_items
+
+theorem foreachTag_items (x : Bytes) (e : SExp) (Q : Nat) :
+    (foreachTag x e).items Q = [⟨.tLeftDelim, Q + 1, [123]⟩, ⟨.tForeach, Q + 8, kForeach⟩,
+      ⟨.tDollarIdent, Q + 10 + x.length, 36 :: x⟩, ⟨.tIdent, Q + 13 + x.length, kwIn⟩,
+      exprItem (Q + 14 + x.length + e.elem.src.length) e, ⟨.tRightDelim, Q + 15 + x.length + e.elem.src.length, [125]⟩] ∧
+    (foreachTag x e).src.length = 15 + x.length + e.elem.src.length := by
+  unfold foreachTag
+  tag_unfold
+  arith_items
+
+theorem letvTag_items (x : Bytes) (e : SExp) (Q : Nat) :
+    (letvTag x e).items Q = [⟨.tLeftDelim, Q + 1, [123]⟩, ⟨.tLet, Q + 4, kLet⟩,
+      ⟨.tDollarIdent, Q + 6 + x.length, 36 :: x⟩, ⟨.tColon, Q + 7 + x.length, [58]⟩,
+      exprItem (Q + 8 + x.length + e.elem.src.length) e, ⟨.tRightDelimEnd, Q + 11 + x.length + e.elem.src.length, [47, 125]⟩] ∧
+    (letvTag x e).src.length = 11 + x.length + e.elem.src.length := by
+  unfold letvTag
+  tag_unfold
+  arith_items
+
+theorem letcTag_items (x : Bytes) (Q : Nat) :
+    (letcTag x).items Q = [⟨.tLeftDelim, Q + 1, [123]⟩, ⟨.tLet, Q + 4, kLet⟩,
+      ⟨.tDollarIdent, Q + 6 + x.length, 36 :: x⟩, ⟨.tRightDelim, Q + 7 + x.length, [125]⟩] ∧
+    (letcTag x).src.length = 7 + x.length := by
+  unfold letcTag
+  tag_unfold
+  arith_items
+
+/-! ### the commands -/
+
+theorem get_run (st : FState) : (get : FP FState) st = .ok (st, st) := rfl
+
+theorem fpure_run {α : Type} (a : α) (st : FState) : (pure a : FP α) st = .ok (a, st) := rfl
+
+theorem ftail1_cons (c : UInt8) (r : Bytes) (st : FState) : FileParser.tail1 (c :: r) st = .ok (r, st) := rfl
+
+theorem cmd_letv (ef : Nat) (x : Bytes) (e : SExp) (he : e.ok) : CmdSpec pf ef (.letv x e) := by
+  intro q t fuel st rest hin hpc hs hf
+  have hit : itemsSegs q (segsCmd t (.letv x e)) = textItem t (q + t.length) ++ (letvTag x e).items (q + t.length) := by
+    simp only [segsCmd, itemsSegs, List.append_nil]
+  rw [hit, (letvTag_items x e (q + t.length)).1] at hs hf
+  rw [drop_len_succ] at hs
+  obtain ⟨f, rfl⟩ : ∃ f, fuel = f + 2 := ⟨fuel - 2, by omega⟩
+  obtain ⟨st1, hn1, hs1, ht1, hp1, hfr1⟩ := fnext_stream' hpc (by simpa using hs)
+  obtain ⟨st2, he2, hs2, ht2, hp2, hfr2⟩ := fexpect_stream' (st := st1) (t := .tDollarIdent) (by omega) hs1 rfl
+  obtain ⟨st3, hk3, hs3, hp3, hp3', hfr3⟩ := fpeek_stream' (st := st2) (by omega) hs2
+  obtain ⟨st4, hn4, hs4, ht4, hp4, hfr4⟩ := fnext_stream' (st := st3) hp3 hs3
+  obtain ⟨st5, hx5, hs5, hp5, hfr5⟩ := parseExpr0_simple pf ef e _ _ _ st4 (by omega) hs4 he (Or.inr rfl)
+  obtain ⟨st6, he6, hs6, ht6, hp6, hfr6⟩ := fexpect_stream' (st := st5) (t := .tRightDelimEnd) (by omega) hs5 rfl
+  refine ⟨st6, ?_, hs6, by omega, ((((hfr1.trans hfr2).trans hfr3).trans hfr4).trans hfr5).trans hfr6⟩
+  show beginTag pf (ef + 4) ((f + 1) + 1) st = _
+  unfold beginTag
+  rw [fbind_run, hn1]
+  simp only
+  rw [fbind_run]
+  have hpl : parseLet pf (ef + 4) (f + 1) ⟨.tLet, q + t.length + 4, kLet⟩ st1 =
+      .ok (nodeCmd q t (.letv x e), st6) := by
+    unfold parseLet
+    rw [fbind_run, he2]
+    simp only
+    rw [fbind_run, hk3]
+    simp only [beq_self_eq_true, if_true]
+    rw [fbind_run, hn4]
+    simp only
+    rw [fbind_run, ftail1_cons]
+    simp only
+    rw [fbind_run, hx5]
+    simp only
+    rw [fbind_run, he6]
+    rfl
+  rw [hpl]
+  rfl
+
+
+theorem notmsg_run (tok : Item) (st : FState) (h : st.inmsg = false) :
+    ((do let s ← get; if s.inmsg = true then FileParser.unexpected tok else pure ()) : FP Unit) st = .ok ((), st) := by
+  rw [fbind_run, get_run]
+  simp only [h, Bool.false_eq_true, if_false]
+  rfl
+
+theorem cmd_print (ef : Nat) (id : Bytes) (hid : idOK id) : CmdSpec pf ef (.print id) := by
+  intro q t fuel st rest hin hpc hs hf
+  have hit : itemsSegs q (segsCmd t (.print id)) = textItem t (q + t.length) ++ (printTag id).items (q + t.length) := by
+    simp only [segsCmd, itemsSegs, List.append_nil]
+  rw [hit, (printTag_items id (q + t.length)).1] at hs hf
+  rw [drop_len_succ] at hs
+  obtain ⟨f, rfl⟩ : ∃ f, fuel = f + 2 := ⟨fuel - 2, by omega⟩
+  obtain ⟨st1, hn1, hs1, ht1, hp1, hfr1⟩ := fnext_stream' hpc (by simpa using hs)
+  obtain ⟨st2, hb2, hs2, hp2, hfr2⟩ := fbackup_stream' (st := st1) (by omega)
+  rw [ht1, hs1] at hs2
+  obtain ⟨st3, hx3, hs3, hp3, hfr3⟩ := parseExpr0_simple pf ef (.var id) _ _ _ st2 (by omega) hs2 hid (Or.inl rfl)
+  obtain ⟨st4, hn4, hs4, ht4, hp4, hfr4⟩ := fnext_stream' (st := st3) (by omega) hs3
+  refine ⟨st4, ?_, hs4, by omega, ((hfr1.trans hfr2).trans hfr3).trans hfr4⟩
+  show beginTag pf (ef + 4) ((f + 1) + 1) st = _
+  unfold beginTag
+  rw [fbind_run, hn1]
+  simp only
+  rw [fbind_run, hb2]
+  simp only
+  rw [fbind_run]
+  have hpp : parsePrint pf (ef + 4) (f + 1) ⟨.tDollarIdent, q + t.length + 2 + id.length, 36 :: id⟩ st2 =
+      .ok (nodeCmd q t (.print id), st4) := by
+    unfold parsePrint
+    rw [fbind_run, hx3]
+    simp only
+    unfold printLoop
+    rw [fbind_run, hn4]
+    simp only [beq_self_eq_true, if_true]
+    rfl
+  rw [hpp]
+  rfl
+
+/-- `parseAttrs` before a `}`: no attributes -/
+theorem parseAttrs_none (allowed : List Bytes) (f : Nat) (rd : Item) (s : List Item) (st : FState) (hpc : st.p.peekCount ≤ 2)
+    (hs : stream st.p = rd :: s) (hrd : rd.typ = .tRightDelim) :
+    ∃ st', parseAttrs allowed (f + 1) [] st = .ok ([], st') ∧ stream st'.p = rd :: s ∧ st'.p.peekCount ≤ 2 ∧
+      (st.p.peekCount ≤ 1 → st'.p.peekCount ≤ 1) ∧ Fr st st' := by
+  obtain ⟨st1, hn1, hs1, ht1, hp1, hfr1⟩ := fnext_stream' hpc hs
+  obtain ⟨st2, hb2, hs2, hp2, hfr2⟩ := fbackup_stream' (st := st1) (by omega)
+  refine ⟨st2, ?_, by rw [hs2, ht1, hs1], by omega, fun _ => by omega, hfr1.trans hfr2⟩
+  unfold parseAttrs
+  rw [fbind_run, hn1]
+  simp only [hrd, show (ItemType.tRightDelim == ItemType.tIdent) = false by decide, Bool.false_eq_true, if_false,
+    beq_self_eq_true, Bool.true_or, if_true]
+  rw [fbind_run, hb2]
+  rfl
+
+theorem cmd_letc (ef : Nat) (x : Bytes) (b : Blk) (hb : BlkSpec pf ef b) : CmdSpec pf ef (.letc x b) := by
+  intro q t fuel st rest hin hpc hs hf
+  have hit : itemsSegs q (segsCmd t (.letc x b)) = textItem t (q + t.length) ++ ((letcTag x).items (q + t.length) ++
+      itemsSegs (q + t.length + (letcTag x).src.length) (closeBlk b (.close kLet))) := by
+    simp only [segsCmd, itemsSegs, closeBlk, List.append_assoc]
+  rw [hit, (letcTag_items x (q + t.length)).1] at hs hf
+  simp only [List.cons_append, List.nil_append] at hs hf
+  rw [drop_len_succ] at hs
+  obtain ⟨f, rfl⟩ : ∃ f, fuel = f + 3 := ⟨fuel - 3, by omega⟩
+  obtain ⟨st1, hn1, hs1, ht1, hp1, hfr1⟩ := fnext_stream' hpc hs
+  obtain ⟨st2, he2, hs2, ht2, hp2, hfr2⟩ := fexpect_stream' (st := st1) (t := .tDollarIdent) (by omega) hs1 rfl
+  obtain ⟨st3, hk3, hs3, hp3, hp3', hfr3⟩ := fpeek_stream' (st := st2) (by omega) hs2
+  obtain ⟨st4, ha4, hs4, hp4, _, hfr4⟩ := parseAttrs_none [kKind] f _ _ st3 hp3 hs3 rfl
+  obtain ⟨st5, hn5, hs5, ht5, hp5, hfr5⟩ := fnext_stream' (st := st4) hp4 hs4
+  have hfr05 := (((hfr1.trans hfr2).trans hfr3).trans hfr4).trans hfr5
+  obtain ⟨st6, hl6, hs6, ht6, hfr6⟩ := hb (.close kLet) [.tLetEnd] (q + t.length + (letcTag x).src.length) (f + 1) none .nil
+    st5 rest (by show List.contains _ (closeType kLet) = true; decide) (by decide) (by rw [hfr05.2.2]; exact hin) (by omega)
+    (by simpa using hs5) (by simp only [List.length_append, List.length_cons] at hf; omega)
+  rw [(closeLet_items _).1] at hs6 ht6
+  simp only [List.drop, List.cons_append, List.nil_append, List.getD_cons_succ, List.getD_cons_zero] at hs6 ht6
+  have hp6 : st6.p.peekCount = 0 := (ht6 (by simp)).2
+  obtain ⟨st7, he7, hs7, ht7, hp7, hfr7⟩ := fexpect_stream' (st := st6) (t := .tRightDelim) (by omega) hs6 rfl
+  refine ⟨st7, ?_, hs7, by omega, (hfr05.trans hfr6).trans hfr7⟩
+  show beginTag pf (ef + 4) ((f + 2) + 1) st = _
+  unfold beginTag
+  rw [fbind_run, hn1]
+  simp only
+  rw [fbind_run]
+  have hpl : parseLet pf (ef + 4) (f + 2) ⟨.tLet, q + t.length + 4, kLet⟩ st1 =
+      .ok (nodeCmd q t (.letc x b), st7) := by
+    show parseLet pf (ef + 4) ((f + 1) + 1) _ st1 = _
+    unfold parseLet
+    rw [fbind_run, he2]
+    simp only
+    rw [fbind_run, hk3]
+    simp only [show (ItemType.tRightDelim == ItemType.tColon) = false by decide, Bool.false_eq_true, if_false]
+    rw [fbind_run, ha4]
+    simp only
+    rw [fbind_run, hn5]
+    simp only [beq_self_eq_true, if_true]
+    rw [fbind_run, ftail1_cons]
+    simp only
+    rw [fbind_run, hl6]
+    simp only
+    rw [fbind_run, he7]
+    rfl
+  rw [hpl]
+  rfl
+
+
+theorem cmd_foreach (ef : Nat) (x : Bytes) (e : SExp) (b : Blk) (he : e.ok) (hb : BlkSpec pf ef b) :
+    CmdSpec pf ef (.foreach x e b) := by
+  intro q t fuel st rest hin hpc hs hf
+  have hit : itemsSegs q (segsCmd t (.foreach x e b)) = textItem t (q + t.length) ++ ((foreachTag x e).items (q + t.length) ++
+      itemsSegs (q + t.length + (foreachTag x e).src.length) (closeBlk b (.close kForeach))) := by
+    simp only [segsCmd, itemsSegs, closeBlk, List.append_assoc]
+  rw [hit, (foreachTag_items x e (q + t.length)).1] at hs hf
+  simp only [List.cons_append, List.nil_append] at hs hf
+  rw [drop_len_succ] at hs
+  obtain ⟨f, rfl⟩ : ∃ f, fuel = f + 3 := ⟨fuel - 3, by omega⟩
+  obtain ⟨st1, hn1, hs1, ht1, hp1, hfr1⟩ := fnext_stream' hpc hs
+  obtain ⟨st2, he2, hs2, ht2, hp2, hfr2⟩ := fexpect_stream' (st := st1) (t := .tDollarIdent) (by omega) hs1 rfl
+  obtain ⟨st3, he3, hs3, ht3, hp3, hfr3⟩ := fexpect_stream' (st := st2) (t := .tIdent) (by omega) hs2 rfl
+  obtain ⟨st4, hx4, hs4, hp4, hfr4⟩ := parseExpr0_simple pf ef e _ _ _ st3 (by omega) hs3 he (Or.inl rfl)
+  obtain ⟨st5, he5, hs5, ht5, hp5, hfr5⟩ := fexpect_stream' (st := st4) (t := .tRightDelim) (by omega) hs4 rfl
+  have hfr05 := (((hfr1.trans hfr2).trans hfr3).trans hfr4).trans hfr5
+  obtain ⟨st6, hl6, hs6, ht6, hfr6⟩ := hb (.close kForeach) [.tIfempty, .tForeachEnd, .tForEnd]
+    (q + t.length + (foreachTag x e).src.length) (f + 1) none .nil st5 rest
+    (by show List.contains _ (closeType kForeach) = true; decide) (by decide) (by rw [hfr05.2.2]; exact hin) (by omega)
+    hs5 (by simp only [List.length_append, List.length_cons] at hf; omega)
+  rw [(closeForeach_items _).1] at hs6 ht6
+  simp only [List.drop, List.cons_append, List.nil_append, List.getD_cons_succ, List.getD_cons_zero] at hs6 ht6
+  have hp6 : st6.p.peekCount = 0 := (ht6 (by simp)).2
+  have ht6' := (ht6 (by simp)).1
+  obtain ⟨st7, hb7, hs7, hp7, hfr7⟩ := fbackup_stream' (st := st6) (by omega)
+  rw [ht6', hs6] at hs7
+  obtain ⟨st8, hn8, hs8, ht8, hp8, hfr8⟩ := fnext_stream' (st := st7) (by omega) hs7
+  obtain ⟨st9, he9, hs9, ht9, hp9, hfr9⟩ := fexpect_stream' (st := st8) (t := .tRightDelim) (by omega) hs8 rfl
+  refine ⟨st9, ?_, hs9, by omega, (((hfr05.trans hfr6).trans hfr7).trans hfr8).trans hfr9⟩
+  show beginTag pf (ef + 4) ((f + 2) + 1) st = _
+  unfold beginTag
+  rw [fbind_run, hn1]
+  simp only
+  rw [fbind_run, notmsg_run _ _ (by rw [hfr1.2.2]; exact hin)]
+  simp only
+  rw [fbind_run]
+  have hpl : parseFor pf (ef + 4) (f + 2) ⟨.tForeach, q + t.length + 8, kForeach⟩ st1 =
+      .ok (nodeCmd q t (.foreach x e b), st9) := by
+    show parseFor pf (ef + 4) ((f + 1) + 1) _ st1 = _
+    unfold parseFor
+    rw [fbind_run, he2]
+    simp only
+    rw [fbind_run, he3]
+    simp only [show (kwIn != kIn) = false by decide, Bool.false_eq_true, if_false]
+    rw [fbind_run, hx4]
+    simp only
+    rw [fbind_run, he5]
+    simp only
+    rw [fbind_run, hl6]
+    simp only
+    rw [fbind_run, hb7]
+    simp only
+    rw [fbind_run, hn8]
+    simp only [show (ItemType.tForeachEnd == ItemType.tIfempty) = false by decide, Bool.false_eq_true, if_false]
+    rw [fbind_run]
+    rw [fpure_run]
+    simp only
+    rw [fbind_run, he9]
+    simp only
+    rw [fbind_run, ftail1_cons]
+    rfl
+  rw [hpl]
+  rfl
+
+
+theorem cmd_foreachE (ef : Nat) (x : Bytes) (e : SExp) (b ie : Blk) (he : e.ok) (hb : BlkSpec pf ef b)
+    (hie : BlkSpec pf ef ie) : CmdSpec pf ef (.foreachE x e b ie) := by
+  intro q t fuel st rest hin hpc hs hf
+  have hit : itemsSegs q (segsCmd t (.foreachE x e b ie)) = textItem t (q + t.length) ++ ((foreachTag x e).items (q + t.length) ++
+      (itemsSegs (q + t.length + (foreachTag x e).src.length) (closeBlk b ifemptyTag) ++
+        itemsSegs (q + t.length + (foreachTag x e).src.length + lenBlk b + ifemptyTag.src.length)
+          (closeBlk ie (.close kForeach)))) := by
+    simp only [segsCmd, itemsSegs, closeBlk, List.append_assoc, itemsSegs_append, lenBlk, lenS, srcSegs_append, srcSegs,
+      List.length_append, List.append_nil]
+    simp only [Nat.add_assoc]
+  rw [hit, (foreachTag_items x e (q + t.length)).1] at hs hf
+  simp only [List.cons_append, List.nil_append] at hs hf
+  rw [drop_len_succ] at hs
+  obtain ⟨f, rfl⟩ : ∃ f, fuel = f + 3 := ⟨fuel - 3, by omega⟩
+  obtain ⟨st1, hn1, hs1, ht1, hp1, hfr1⟩ := fnext_stream' hpc hs
+  obtain ⟨st2, he2, hs2, ht2, hp2, hfr2⟩ := fexpect_stream' (st := st1) (t := .tDollarIdent) (by omega) hs1 rfl
+  obtain ⟨st3, he3, hs3, ht3, hp3, hfr3⟩ := fexpect_stream' (st := st2) (t := .tIdent) (by omega) hs2 rfl
+  obtain ⟨st4, hx4, hs4, hp4, hfr4⟩ := parseExpr0_simple pf ef e _ _ _ st3 (by omega) hs3 he (Or.inl rfl)
+  obtain ⟨st5, he5, hs5, ht5, hp5, hfr5⟩ := fexpect_stream' (st := st4) (t := .tRightDelim) (by omega) hs4 rfl
+  have hfr05 := (((hfr1.trans hfr2).trans hfr3).trans hfr4).trans hfr5
+  obtain ⟨st6, hl6, hs6, ht6, hfr6⟩ := hb ifemptyTag [.tIfempty, .tForeachEnd, .tForEnd]
+    (q + t.length + (foreachTag x e).src.length) (f + 1) none .nil st5
+    (itemsSegs (q + t.length + (foreachTag x e).src.length + lenBlk b + ifemptyTag.src.length) (closeBlk ie (.close kForeach)) ++ rest)
+    (by show List.contains _ (wordType kIfempty) = true; decide) (by decide) (by rw [hfr05.2.2]; exact hin) (by omega)
+    (by rw [hs5]; simp) (by simp only [List.length_append, List.length_cons] at hf; omega)
+  rw [(ifemptyTag_items _).1] at hs6 ht6
+  simp only [List.drop, List.cons_append, List.nil_append, List.getD_cons_succ, List.getD_cons_zero] at hs6 ht6
+  have hp6 : st6.p.peekCount = 0 := (ht6 (by simp [ifemptyTag])).2
+  have ht6' := (ht6 (by simp [ifemptyTag])).1
+  obtain ⟨st7, hb7, hs7, hp7, hfr7⟩ := fbackup_stream' (st := st6) (by omega)
+  rw [ht6', hs6] at hs7
+  obtain ⟨st8, hn8, hs8, ht8, hp8, hfr8⟩ := fnext_stream' (st := st7) (by omega) hs7
+  obtain ⟨st9, he9, hs9, ht9, hp9, hfr9⟩ := fexpect_stream' (st := st8) (t := .tRightDelim) (by omega) hs8 rfl
+  have hfr09 := (((hfr05.trans hfr6).trans hfr7).trans hfr8).trans hfr9
+  obtain ⟨st10, hl10, hs10, ht10, hfr10⟩ := hie (.close kForeach) [.tForeachEnd, .tForEnd]
+    (q + t.length + (foreachTag x e).src.length + lenBlk b + ifemptyTag.src.length) (f + 1) none .nil st9 rest
+    (by show List.contains _ (closeType kForeach) = true; decide) (by decide) (by rw [hfr09.2.2]; exact hin) (by omega)
+    hs9 (by simp only [List.length_append, List.length_cons] at hf; omega)
+  rw [(closeForeach_items _).1] at hs10 ht10
+  simp only [List.drop, List.cons_append, List.nil_append, List.getD_cons_succ, List.getD_cons_zero] at hs10 ht10
+  have hp10 : st10.p.peekCount = 0 := (ht10 (by simp)).2
+  obtain ⟨st11, he11, hs11, ht11, hp11, hfr11⟩ := fexpect_stream' (st := st10) (t := .tRightDelim) (by omega) hs10 rfl
+  refine ⟨st11, ?_, hs11, by omega, (hfr09.trans hfr10).trans hfr11⟩
+  show beginTag pf (ef + 4) ((f + 2) + 1) st = _
+  unfold beginTag
+  rw [fbind_run, hn1]
+  simp only
+  rw [fbind_run, notmsg_run _ _ (by rw [hfr1.2.2]; exact hin)]
+  simp only
+  rw [fbind_run]
+  have hpl : parseFor pf (ef + 4) (f + 2) ⟨.tForeach, q + t.length + 8, kForeach⟩ st1 =
+      .ok (nodeCmd q t (.foreachE x e b ie), st11) := by
+    show parseFor pf (ef + 4) ((f + 1) + 1) _ st1 = _
+    unfold parseFor
+    rw [fbind_run, he2]
+    simp only
+    rw [fbind_run, he3]
+    simp only [show (kwIn != kIn) = false by decide, Bool.false_eq_true, if_false]
+    rw [fbind_run, hx4]
+    simp only
+    rw [fbind_run, he5]
+    simp only
+    rw [fbind_run, hl6]
+    simp only
+    rw [fbind_run, hb7]
+    simp only
+    rw [fbind_run, hn8]
+    simp only [beq_self_eq_true, if_true]
+    rw [fbind_run, fbind_run, he9]
+    simp only
+    rw [fbind_run, hl10]
+    simp only
+    rw [fpure_run]
+    simp only
+    rw [fbind_run, he11]
+    simp only
+    rw [fbind_run, ftail1_cons]
+    rfl
+  rw [hpl]
+  rfl
+
+theorem closeBlk_len (q : Nat) (b : Blk) (g : Tag) :
+    (g.items (q + lenBlk b)).length ≤ (itemsSegs q (closeBlk b g)).length := by
+  simp only [closeBlk, itemsSegs_append, itemsSegs, lenBlk, lenS, List.length_append, List.length_nil, Nat.add_assoc]
+  omega
+
+theorem tail_els (ef : Nat) (b : Blk) (hb : BlkSpec pf ef b) : TailSpec pf ef (.els b) := by
+  intro qt fuel pos conds isElse st rest _ hin hpc htop hs hf
+  simp only [IfTail.head] at htop hs hf
+  rw [(elseTag_items qt).1] at htop hs hf
+  simp only [List.drop, List.getD_cons_succ, List.getD_cons_zero, List.cons_append, List.nil_append, segsTail,
+    (elseTag_items qt).2] at htop hs hf
+  obtain ⟨f, rfl⟩ : ∃ f, fuel = f + 1 := ⟨fuel - 1, by omega⟩
+  obtain ⟨st1, hb1, hs1, hp1, hfr1⟩ := fbackup_stream' (st := st) (by omega)
+  rw [htop, hs] at hs1
+  obtain ⟨st2, hn2, hs2, ht2, hp2, hfr2⟩ := fnext_stream' (st := st1) (by omega) hs1
+  obtain ⟨st3, he3, hs3, ht3, hp3, hfr3⟩ := fexpect_stream' (st := st2) (t := .tRightDelim) (by omega) hs2 rfl
+  have hfr03 := (hfr1.trans hfr2).trans hfr3
+  obtain ⟨st4, hl4, hs4, ht4, hfr4⟩ := hb (.close kIf) [.tElseif, .tElse, .tIfEnd] (qt + 6) f none .nil st3 rest
+    (by show List.contains _ (closeType kIf) = true; decide) (by decide) (by rw [hfr03.2.2]; exact hin) (by omega)
+    (by rw [hs3]; rfl) (by simp only [List.length_cons, closeBlk] at hf ⊢; omega)
+  obtain ⟨st5, hc5, hs5, hp5, hfr5⟩ := tail_fi pf ef (qt + 6 + lenBlk b) f pos
+    (conds.append (.cons (.ifCond pos none (.list (headPos (itemsSegs (qt + 6) (closeBlk b (.close kIf))))
+      (nodesBlk (qt + 6) b))) .nil)) true st4 rest (Or.inr rfl) (by rw [(hfr03.trans hfr4).2.2]; exact hin)
+    (ht4 (by simp)).2 (ht4 (by simp)).1 (by simpa [IfTail.head, segsTail, itemsSegs] using hs4)
+    (by
+      have hcl := closeBlk_len (qt + 6) b (.close kIf)
+      rw [(closeIf_items _).1] at hcl
+      simp only [IfTail.head, (closeIf_items _).1, segsTail, itemsSegs, List.length_cons, List.length_nil, closeBlk] at hf hcl ⊢
+      omega)
+  refine ⟨st5, ?_, hs5, hp5, (hfr03.trans hfr4).trans hfr5⟩
+  unfold ifCont
+  rw [fbind_run, hb1]
+  simp only
+  rw [fbind_run, hn2]
+  simp only [show (ItemType.tElse == ItemType.tElseif) = false by decide, beq_self_eq_true, Bool.false_eq_true, if_false,
+    if_true]
+  rw [ifLoop_succ]
+  simp only [Bool.not_true, Bool.false_eq_true, if_false]
+  rw [fbind_run, fpure_run]
+  simp only
+  rw [fbind_run, he3]
+  simp only
+  rw [fbind_run, hl4]
+  simp only [Option.getD_none, NodeList.append]
+  rw [hc5]
+  simp only [condsTail, nl_append_assoc, NodeList.append, nl_append_nil, (elseTag_items qt).2]
+
+theorem tail_elif (ef : Nat) (e : SExp) (b : Blk) (r : IfTail) (he : e.ok) (hr : wfTail r) (hb : BlkSpec pf ef b)
+    (hrs : TailSpec pf ef r) : TailSpec pf ef (.elif e b r) := by
+  intro qt fuel pos conds isElse st rest hie hin hpc htop hs hf
+  have hie' : isElse = false := by rcases hie with h | h <;> first | exact h | exact absurd h (by simp)
+  subst hie'
+  simp only [IfTail.head] at htop hs hf
+  rw [(elseifTag_items e qt).1] at htop hs hf
+  simp only [List.drop, List.getD_cons_succ, List.getD_cons_zero, List.cons_append, List.nil_append, segsTail,
+    (elseifTag_items e qt).2] at htop hs hf
+  have hsplit : itemsSegs (qt + (9 + e.elem.src.length)) (initBlk b ++ [(b.trail, r.head)] ++ segsTail r) =
+      itemsSegs (qt + (9 + e.elem.src.length)) (closeBlk b r.head) ++
+        itemsSegs (qt + (9 + e.elem.src.length) + lenBlk b + r.head.src.length) (segsTail r) := by
+    simp only [closeBlk, itemsSegs_append, lenBlk, lenS, srcSegs_append, srcSegs, List.length_append, List.append_nil,
+      Nat.add_assoc]
+  rw [hsplit] at hs hf
+  simp only [List.length_cons, List.length_append, List.length_nil] at hf
+  obtain ⟨f, rfl⟩ : ∃ f, fuel = f + 1 := ⟨fuel - 1, by omega⟩
+  obtain ⟨st1, hb1, hs1, hp1, hfr1⟩ := fbackup_stream' (st := st) (by omega)
+  rw [htop, hs] at hs1
+  obtain ⟨st2, hn2, hs2, ht2, hp2, hfr2⟩ := fnext_stream' (st := st1) (by omega) hs1
+  obtain ⟨st3, hx3, hs3, hp3, hfr3⟩ := parseExpr0_simple pf ef e _ _ _ st2 (by omega) hs2 he (Or.inl rfl)
+  obtain ⟨st4, he4, hs4, ht4, hp4, hfr4⟩ := fexpect_stream' (st := st3) (t := .tRightDelim) (by omega) hs3 rfl
+  have hfr04 := ((hfr1.trans hfr2).trans hfr3).trans hfr4
+  have hstop : Stops [.tElseif, .tElse, .tIfEnd] r.head := by
+    cases r with
+    | fi => show List.contains _ (closeType kIf) = true; decide
+    | els _ => show List.contains _ (wordType kElse) = true; decide
+    | elif _ _ _ => show List.contains _ (wordType kElseif) = true; decide
+  have hne : r.head ≠ .eof := by cases r <;> simp [IfTail.head, elseTag, elseifTag]
+  obtain ⟨st5, hl5, hs5, ht5, hfr5⟩ := hb r.head [.tElseif, .tElse, .tIfEnd] (qt + (9 + e.elem.src.length)) f none .nil st4
+    (itemsSegs (qt + (9 + e.elem.src.length) + lenBlk b + r.head.src.length) (segsTail r) ++ rest)
+    hstop (by decide) (by rw [hfr04.2.2]; exact hin) (by omega)
+    (by rw [hs4]; simp) (by omega)
+  have hlen2 : 2 ≤ (r.head.items (qt + (9 + e.elem.src.length) + lenBlk b)).length := by
+    cases r with
+    | fi => simp [IfTail.head, Tag.items]
+    | els _ => simp [IfTail.head, (elseTag_items _).1]
+    | elif e' _ _ => simp [IfTail.head, (elseifTag_items e' _).1]
+  obtain ⟨st6, hc6, hs6, hp6, hfr6⟩ := hrs (qt + (9 + e.elem.src.length) + lenBlk b) f pos
+    (conds.append (.cons (.ifCond pos (some (exprOf (qt + 8 + e.elem.src.length) e))
+      (.list (headPos (itemsSegs (qt + (9 + e.elem.src.length)) (closeBlk b r.head))) (nodesBlk (qt + (9 + e.elem.src.length)) b))) .nil))
+    false st5 rest (Or.inl rfl) (by rw [(hfr04.trans hfr5).2.2]; exact hin) (ht5 hne).2 (ht5 hne).1
+    (by rw [hs5])
+    (by
+      have hcl := closeBlk_len (qt + (9 + e.elem.src.length)) b r.head
+      omega)
+  refine ⟨st6, ?_, hs6, hp6, (hfr04.trans hfr5).trans hfr6⟩
+  unfold ifCont
+  rw [fbind_run, hb1]
+  simp only
+  rw [fbind_run, hn2]
+  simp only [beq_self_eq_true, if_true]
+  rw [ifLoop_succ]
+  simp only [Bool.not_false, if_true]
+  rw [fbind_run, fbind_run, hx3]
+  simp only
+  rw [fpure_run]
+  simp only
+  rw [fbind_run, he4]
+  simp only
+  rw [fbind_run, hl5]
+  simp only [Option.getD_none, NodeList.append]
+  rw [hc6]
+  simp only [condsTail, nl_append_assoc, NodeList.append, (elseifTag_items e qt).2]
+
+theorem cmd_if (ef : Nat) (e : SExp) (b : Blk) (tl : IfTail) (he : e.ok) (hb : BlkSpec pf ef b) (htl : TailSpec pf ef tl) :
+    CmdSpec pf ef (.ifc e b tl) := by
+  intro q t fuel st rest hin hpc hs hf
+  have hit : itemsSegs q (segsCmd t (.ifc e b tl)) = textItem t (q + t.length) ++ ((ifTag e).items (q + t.length) ++
+      (itemsSegs (q + t.length + (ifTag e).src.length) (closeBlk b tl.head) ++
+        itemsSegs (q + t.length + (ifTag e).src.length + lenBlk b + tl.head.src.length) (segsTail tl))) := by
+    simp only [segsCmd, itemsSegs, closeBlk, List.append_assoc, itemsSegs_append, lenBlk, lenS, srcSegs_append, srcSegs,
+      List.length_append, List.append_nil]
+    simp only [Nat.add_assoc]
+  rw [hit, (ifTag_items e (q + t.length)).1] at hs hf
+  simp only [List.cons_append, List.nil_append] at hs hf
+  rw [drop_len_succ] at hs
+  obtain ⟨f, rfl⟩ : ∃ f, fuel = f + 3 := ⟨fuel - 3, by omega⟩
+  obtain ⟨st1, hn1, hs1, ht1, hp1, hfr1⟩ := fnext_stream' hpc hs
+  obtain ⟨st2, hx2, hs2, hp2, hfr2⟩ := parseExpr0_simple pf ef e _ _ _ st1 (by omega) hs1 he (Or.inl rfl)
+  obtain ⟨st3, he3, hs3, ht3, hp3, hfr3⟩ := fexpect_stream' (st := st2) (t := .tRightDelim) (by omega) hs2 rfl
+  have hfr03 := (hfr1.trans hfr2).trans hfr3
+  have hstop : Stops [.tElseif, .tElse, .tIfEnd] tl.head := by
+    cases tl with
+    | fi => show List.contains _ (closeType kIf) = true; decide
+    | els _ => show List.contains _ (wordType kElse) = true; decide
+    | elif _ _ _ => show List.contains _ (wordType kElseif) = true; decide
+  have hne : tl.head ≠ .eof := by cases tl <;> simp [IfTail.head, elseTag, elseifTag]
+  obtain ⟨st4, hl4, hs4, ht4, hfr4⟩ := hb tl.head [.tElseif, .tElse, .tIfEnd] (q + t.length + (ifTag e).src.length) (f + 1)
+    none .nil st3
+    (itemsSegs (q + t.length + (ifTag e).src.length + lenBlk b + tl.head.src.length) (segsTail tl) ++ rest)
+    hstop (by decide) (by rw [hfr03.2.2]; exact hin) (by omega)
+    (by rw [hs3]; simp) (by simp only [List.length_cons, List.length_append] at hf ⊢; omega)
+  obtain ⟨st5, hc5, hs5, hp5, hfr5⟩ := htl (q + t.length + (ifTag e).src.length + lenBlk b) (f + 1) (q + t.length + 3)
+    (.cons (.ifCond (q + t.length + 3) (some (exprOf (q + t.length + 4 + e.elem.src.length) e))
+      (.list (headPos (itemsSegs (q + t.length + (ifTag e).src.length) (closeBlk b tl.head)))
+        (nodesBlk (q + t.length + (ifTag e).src.length) b))) .nil)
+    false st4 rest (Or.inl rfl) (by rw [(hfr03.trans hfr4).2.2]; exact hin) (ht4 hne).2 (ht4 hne).1
+    (by rw [hs4])
+    (by
+      have hcl := closeBlk_len (q + t.length + (ifTag e).src.length) b tl.head
+      simp only [List.length_cons, List.length_append, List.length_nil] at hf
+      omega)
+  refine ⟨st5, ?_, hs5, hp5, (hfr03.trans hfr4).trans hfr5⟩
+  show beginTag pf (ef + 4) ((f + 2) + 1) st = _
+  unfold beginTag
+  rw [fbind_run, hn1]
+  simp only
+  rw [fbind_run, notmsg_run _ _ (by rw [hfr1.2.2]; exact hin)]
+  simp only
+  rw [fbind_run]
+  have hpl : ifLoop pf (ef + 4) (f + 2) (q + t.length + 3) false .nil st1 = .ok (nodeCmd q t (.ifc e b tl), st5) := by
+    show ifLoop pf (ef + 4) ((f + 1) + 1) _ false .nil st1 = _
+    rw [ifLoop_succ]
+    simp only [Bool.not_false, if_true]
+    rw [fbind_run, fbind_run, hx2]
+    simp only
+    rw [fpure_run]
+    simp only
+    rw [fbind_run, he3]
+    simp only
+    rw [fbind_run, hl4]
+    simp only [Option.getD_none, NodeList.append]
+    rw [hc5]
+    simp only [nodeCmd, NodeList.append]
+  rw [hpl]
+  rfl
+
+
+/-! ## the mutual induction over the tree -/
+
+mutual
+  theorem spec_cmd (ef : Nat) : ∀ (c : Cmd), wfCmd c → CmdSpec pf ef c
+    | .print id, h => cmd_print pf ef id h
+    | .ifc e b tl, h => cmd_if pf ef e b tl h.1 (spec_blk ef b h.2.1) (spec_tail ef tl h.2.2)
+    | .foreach x e b, h => cmd_foreach pf ef x e b h.2.1 (spec_blk ef b h.2.2)
+    | .foreachE x e b ie, h => cmd_foreachE pf ef x e b ie h.2.1 (spec_blk ef b h.2.2.1) (spec_blk ef ie h.2.2.2)
+    | .letv x e, h => cmd_letv pf ef x e h.2
+    | .letc x b, h => cmd_letc pf ef x b (spec_blk ef b h.2)
+  theorem spec_blk (ef : Nat) : ∀ (b : Blk), wfBlk b → BlkSpec pf ef b
+    | .done t, _ => blk_done pf ef t
+    | .cons t c r, h => blk_cons pf ef t c r (spec_cmd ef c h.2.1) (spec_blk ef r h.2.2)
+  theorem spec_tail (ef : Nat) : ∀ (tl : IfTail), wfTail tl → TailSpec pf ef tl
+    | .fi, _ => tail_fi pf ef
+    | .els b, h => tail_els pf ef b (spec_blk ef b h)
+    | .elif e b r, h => tail_elif pf ef e b r h.1 h.2.2 (spec_blk ef b h.2.1) (spec_tail ef r h.2.2)
+end
+
+end parser
+
+/-- **`block_source_spec`.**  Parser completeness at source level for the family `Blk`: text runs,
+    print tags and nested `{if}` / `{elseif}` / `{else}`, `{foreach}` / `{ifempty}`, `{let … /}`,
+    `{let}…{/let}` blocks with simple expressions.  For every well-formed tree `b`, the source text
+    `srcOf b` is ACCEPTED by `parse.SoyFile` (lexer ∘ file parser) and the result is exactly
+    `nodesOf b` — every node with the position the parser assigns; the lexer sends exactly `itemsOf b`. -/
+theorem block_source_spec (pf : Bytes → Option UInt64) (b : Blk) (h : wfBlk b) :
+    lexAll (srcOf b) false = .items (itemsOf b) ∧ parseSource pf (srcOf b) = .ok (nodesOf b) := by
+  refine ⟨lexAll_tree b h, ?_⟩
+  unfold parseSource
+  rw [lexAll_tree b h]
+  simp only
+  unfold parseFile
+  simp only [StateT.run]
+  have hef : exprFuel (itemsOf b) = (8 * (itemsOf b).length + 60) + 4 := by
+    simp only [exprFuel, Parser.fuelFor]
+  obtain ⟨st', hl, _, _, _⟩ := spec_blk pf (8 * (itemsOf b).length + 60) b h .eof [.tEOF] 0
+    (FileParser.fuelFor (itemsOf b).length) none .nil { p := initState (itemsOf b) } []
+    (by show List.contains _ _ = true; decide) (by decide) rfl (by simp [initState])
+    (by simp [stream, pending, initState, itemsOf])
+    (by simp only [FileParser.fuelFor, itemsOf]; omega)
+  rw [hef, hl]
+  simp only [nodesOf, NodeList.append]
+
+/-! ## Non-vacuity -/
+
+set_option maxRecDepth 20000
+
+/-- `a{if $x}b{elseif 1}{$y}{else}⏎{/if}{foreach $i in $l}<{$i}>{ifempty}none{/foreach}{let $v: 12 /}{let $w}z{/let}end` -/
+def exTree : Blk :=
+  .cons [97] (.ifc (.var [120]) (.done [98])
+      (.elif (.int [49]) (.cons [] (.print [121]) (.done [])) (.els (.done [10]))))
+  (.cons [] (.foreachE [105] (.var [108]) (.cons [60] (.print [105]) (.done [62])) (.done [110, 111, 110, 101]))
+  (.cons [] (.letv [118] (.int [49, 50]))
+  (.cons [] (.letc [119] (.done [122])) (.done [101, 110, 100]))))
+
+theorem exTree_wf : wfBlk exTree := by
+  simp only [exTree, wfBlk, wfCmd, wfTail, SExp.ok]
+  decide
+
+theorem exTree_src : srcOf exTree =
+    [97, 123, 105, 102, 32, 36, 120, 125, 98, 123, 101, 108, 115, 101, 105, 102, 32, 49, 125, 123, 36, 121, 125,
+     123, 101, 108, 115, 101, 125, 10, 123, 47, 105, 102, 125, 123, 102, 111, 114, 101, 97, 99, 104, 32, 36, 105, 32,
+     105, 110, 32, 36, 108, 125, 60, 123, 36, 105, 125, 62, 123, 105, 102, 101, 109, 112, 116, 121, 125, 110, 111, 110,
+     101, 123, 47, 102, 111, 114, 101, 97, 99, 104, 125, 123, 108, 101, 116, 32, 36, 118, 58, 32, 49, 50, 32, 47, 125,
+     123, 108, 101, 116, 32, 36, 119, 125, 122, 123, 47, 108, 101, 116, 125, 101, 110, 100] := by rfl
+
+theorem exTree_dropped : dropped [97] = false ∧ dropped [98] = false ∧ dropped [10] = true ∧ dropped [60] = false ∧
+    dropped [62] = false ∧ dropped [110, 111, 110, 101] = false ∧ dropped [122] = false ∧
+    dropped [101, 110, 100] = false := by
+  refine ⟨?_, ?_, ?_, ?_, ?_, ?_, ?_, ?_⟩ <;>
+    simp [dropped, allSpaceWithNewline, allSpaceLoop, decodeRune, byteAt, Lex.isSpaceEOL, Lex.isSpace, Lex.isEndOfLine]
+
+theorem exTree_nodes : nodesOf exTree =
+    [.rawText 1 [97],
+     .ifc 4 (.cons (.ifCond 4 (some (.dataRef 7 [120] .nil)) (.list 9 (.cons (.rawText 9 [98]) .nil)))
+        (.cons (.ifCond 4 (some (.int 18 1)) (.list 20 (.cons (.print 22 (.dataRef 22 [121] .nil) []) .nil)))
+        (.cons (.ifCond 4 none (.list 31 .nil)) .nil))),
+     .forc 43 [105] (.dataRef 52 [108] .nil)
+       (.list 54 (.cons (.rawText 54 [60]) (.cons (.print 57 (.dataRef 57 [105] .nil) []) (.cons (.rawText 59 [62]) .nil))))
+       (.cons (.list 72 (.cons (.rawText 72 [110, 111, 110, 101]) .nil)) .nil),
+     .letValue 86 [118] (.int 93 12),
+     .letContent 100 [119] (.list 105 (.cons (.rawText 105 [122]) .nil)),
+     .rawText 114 [101, 110, 100]] := by
+  obtain ⟨d1, d2, d3, d4, d5, d6, d7, d8⟩ := exTree_dropped
+  have j1 : joinLines [97] false false = [97] := by rfl
+  have j2 : joinLines [98] false false = [98] := by rfl
+  have j4 : joinLines [60] false false = [60] := by rfl
+  have j5 : joinLines [62] false false = [62] := by rfl
+  have j6 : joinLines [110, 111, 110, 101] false false = [110, 111, 110, 101] := by rfl
+  have j7 : joinLines [122] false false = [122] := by rfl
+  have j8 : joinLines [101, 110, 100] false false = [101, 110, 100] := by rfl
+  simp [nodesOf, exTree, nodesBlk, nodeCmd, condsTail, textNL, exprOf, natVal, headPos, itemsSegs, closeBlk, initBlk,
+    segsCmd, segsTail, Blk.trail, IfTail.head, textItem, lenS, lenBlk, srcSegs, Tag.src, srcEs, Elem.src, SExp.elem,
+    closeBytes, ifTag, elseifTag, elseTag, foreachTag, ifemptyTag, letvTag, letcTag, printTag, Tag.items, itemsEs,
+    Elem.items, NodeList.append, NodeList.toList, kIf, kElseif, kElse, kForeach, kIfempty, kLet, kwIn,
+    d1, d2, d3, d4, d5, d6, d7, d8, j1, j2, j4, j5, j6, j7, j8]
+
+/-- the theorem applied to that source: accepted, with exactly this tree (the real parser returns the
+    same: `build/vh worker`, op `parsesrc`) -/
+theorem exTree_spec (pf : Bytes → Option UInt64) :
+    parseSource pf
+      [97, 123, 105, 102, 32, 36, 120, 125, 98, 123, 101, 108, 115, 101, 105, 102, 32, 49, 125, 123, 36, 121, 125,
+       123, 101, 108, 115, 101, 125, 10, 123, 47, 105, 102, 125, 123, 102, 111, 114, 101, 97, 99, 104, 32, 36, 105, 32,
+       105, 110, 32, 36, 108, 125, 60, 123, 36, 105, 125, 62, 123, 105, 102, 101, 109, 112, 116, 121, 125, 110, 111, 110,
+       101, 123, 47, 102, 111, 114, 101, 97, 99, 104, 125, 123, 108, 101, 116, 32, 36, 118, 58, 32, 49, 50, 32, 47, 125,
+       123, 108, 101, 116, 32, 36, 119, 125, 122, 123, 47, 108, 101, 116, 125, 101, 110, 100] =
+    .ok [.rawText 1 [97],
+     .ifc 4 (.cons (.ifCond 4 (some (.dataRef 7 [120] .nil)) (.list 9 (.cons (.rawText 9 [98]) .nil)))
+        (.cons (.ifCond 4 (some (.int 18 1)) (.list 20 (.cons (.print 22 (.dataRef 22 [121] .nil) []) .nil)))
+        (.cons (.ifCond 4 none (.list 31 .nil)) .nil))),
+     .forc 43 [105] (.dataRef 52 [108] .nil)
+       (.list 54 (.cons (.rawText 54 [60]) (.cons (.print 57 (.dataRef 57 [105] .nil) []) (.cons (.rawText 59 [62]) .nil))))
+       (.cons (.list 72 (.cons (.rawText 72 [110, 111, 110, 101]) .nil)) .nil),
+     .letValue 86 [118] (.int 93 12),
+     .letContent 100 [119] (.list 105 (.cons (.rawText 105 [122]) .nil)),
+     .rawText 114 [101, 110, 100]] := by
+  have := (block_source_spec pf exTree exTree_wf).2
+  rw [exTree_src, exTree_nodes] at this
+  exact this
 
 end SoyVerif.Props.C05c
